@@ -1,15 +1,28 @@
 //@ unit tokenizer
 //@ serves C11 C04
-//@ must_verify comment eoi optional OffsetStrIter::span Token::new Token::new_with_pos lemma_lits lemma_cmt_stop lemma_cmt_end_least lemma_suffix_valid lemma_boundary_is_char_boundary lemma_ascii_on_boundary lemma_until_span ascii_ws whitespace Position::from lemma_ws_dep_set lemma_boundary_step lemma_ws_run_is_ascii lemma_ws_end_bounds
+//@ must_verify Position::from Token::new Token::new_with_pos OffsetStrIter::span ascii_ws ascii_alpha ascii_digit eoi optional not trap complete whitespace comment commatok lbracetok rbracetok lparentok rparentok dotdottok dottok plustok dashtok startok slashtok modulustok pcttok eqeqtok notequaltok matchtok notmatchtok gttok gtequaltok ltequaltok lttok equaltok semicolontok doublecolontok colontok leftsquarebracket rightsquarebracket fatcommatok andtok ortok pipetok selecttok intok istok nottok tracetok failtok functok moduletok lettok importtok includetok asserttok outtok constrainttok converttok astok maptok filtertok reducetok is_symbol_char barewordtok digittok emptytok booleantok end_of_input escapequoted strtok lemma_boundary_step lemma_ascii_steps lemma_suffix_valid lemma_boundary_is_char_boundary lemma_ascii_on_boundary lemma_ascii_text lemma_fixed_text lemma_starts_1 lemma_starts_2 lemma_starts_first lemma_lits_1 lemma_lits_2 lemma_lits_3 lemma_lits_4 lemma_lits_5 lemma_lits_6 lemma_lits_7 lemma_lits_8 lemma_lits lemma_ws_dep_set lemma_ws_end_bounds lemma_ws_run_is_ascii lemma_cmt_end_bounds lemma_cmt_stop lemma_cmt_end_least lemma_until_span lemma_sep lemma_run_end_bounds lemma_consume_step lemma_consume_span
 //@ include prelude/head.rs
 use vstd::utf8::*;
 use std::rc::Rc;
 use std::ops::Index;
 
+// C11 for the recognisers of src/tokenizer/mod.rs: whitespace, comment, the fixed-text recognisers (operators,
+// punctuation, keywords), numbers, barewords, booleans, NULL, strings (shape only; the value is unit lit_roundtrip),
+// end of input, and the ORDERED alternation `token`.
+// Everything executable is extracted: the ucg functions and macros verbatim (make_fn! expanded one layer, R10), the
+// abortable_parser combinators from the pinned dependency (prelude/tokenizer_macros.rs, prelude/tokenizer_ap.rs;
+// what is rewritten there and why is said at each item).
+// Hand-written: the oracle (what a token's text, extent and position must be, from the property statement and the
+// reference grammar), loop clauses, lemmas.
+
+//@ include prelude/tokenizer_macros.rs
+//@ extract src/tokenizer/mod.rs :: macro do_text_token_tok
+//@   rule R0
+//@ end
+
 verus! {
 //@ include prelude/core.rs
 //@ include prelude/stepper_iter.rs
-//@ include prelude/lit_roundtrip_ap.rs
 
 //@ extract src/ast/mod.rs :: struct Position
 //@   rule R0
@@ -20,23 +33,6 @@ verus! {
 //@ extract src/ast/mod.rs :: struct Token
 //@   rule R0
 //@ end
-
-//@ extract src/iter.rs :: impl * From<&'a OffsetStrIter<'a>> for Position :: fn from
-//@   impl_header impl<'a> Position
-//@   ret r
-//@   sig <<<
-        requires wf_osi(*s)
-        ensures
-            r.file == s.source_file,
-            r.offset == s.contained.offset,
-            r.line == true_line(src_bytes(s.contained), s.contained.offset as int) + s.line_offset,
-            r.column == true_column(src_bytes(s.contained), s.contained.offset as int) + s.col_offset,
-//@   >>>
-//@ end
-
-// `&str -> Rc<str>` (`"".into()`, `frag.into()`): std `impl From<&str> for Rc<str>`, content preserved.
-pub assume_specification<'a, 'b> [<Rc<str> as From<&'a str>>::from] (s: &'b str) -> (r: Rc<str>)
-    ensures r@ == s@;
 
 // ---------- vocabulary ----------
 pub open spec fn bytes_of(i: OffsetStrIter) -> Seq<u8> { src_bytes(i.contained) }
@@ -49,8 +45,8 @@ pub open spec fn same_frame(a: OffsetStrIter, b: OffsetStrIter) -> bool {
 pub open spec fn moved(i: OffsetStrIter, r: OffsetStrIter, k: int) -> bool {
     same_frame(r, i) && wf_osi(r) && off_of(r) == k
 }
-
-// the position a token starting where `i` stands must report
+// the position a token starting where `i` stands must report: the true line (1 + LFs before), the true column
+// (bytes since the last LF, 1-based), the byte offset (prelude/stepper_iter.rs)
 pub open spec fn pos_is(p: Position, i: OffsetStrIter) -> bool {
     &&& p.file == i.source_file
     &&& p.offset == off_of(i)
@@ -58,132 +54,67 @@ pub open spec fn pos_is(p: Position, i: OffsetStrIter) -> bool {
     &&& p.column == true_column(bytes_of(i), off_of(i)) + i.col_offset
 }
 
-// char::is_whitespace is specified by vstd (std_specs/char.rs `is_white_space`: the Unicode White_Space set; for code
-// points below 256 that is U+0009..U+000D, U+0020, U+0085, U+00A0 - proved below as lemma_ws_dep_set).
-// what abortable_parser's `ascii_ws` accepts: the byte, read as a Latin-1 code point, is White_Space
-pub open spec fn ws_dep(b: u8) -> bool { vstd::std_specs::char::is_white_space(b as char) }
-// the oracle: ASCII whitespace = u8::is_ascii_whitespace (space, \t, \n, form feed, \r) plus vertical tab
-pub open spec fn ws_ascii(b: u8) -> bool { b == 0x20 || b == 0x09 || b == 0x0A || b == 0x0B || b == 0x0C || b == 0x0D }
+//@ include prelude/tokenizer_ap.rs
 
-//@ extract dep:abortable_parser/src/combinators.rs :: fn ascii_ws
-//@   subst "ascii_ws<'a, I: InputIter<Item = &'a u8>>(mut i: I) -> Result<I, u8>" => "ascii_ws<'a>(mut i: OffsetStrIter<'a>) -> Result<OffsetStrIter<'a>, u8>"
-//@   rule R4
-//@   subst all "\"Not whitespace\".to_string()" => "verif_msg()"
-//@   subst "\"Unexpected End Of Input\".to_string()" => "verif_msg()"
-// seeded change A: only space, tab, CR, LF count as whitespace (form feed / vertical tab no longer do)
-//@   mutant ws_four_only "(*b as char).is_whitespace()" => "(*b == b' ' || *b == b'\\t' || *b == b'\\r' || *b == b'\\n')" expect ascii_ws
-//@   mutant ws_no_vt "(*b as char).is_whitespace()" => "(*b == b' ' || (*b >= 9 && *b <= 13 && *b != 11))" expect ascii_ws
+//@ extract src/iter.rs :: impl * From<&'a OffsetStrIter<'a>> for Position :: fn from
+//@   impl_header impl<'a> Position
 //@   ret r
 //@   sig <<<
-    requires wf_osi(i__in)
-    ensures ({
-        let bs = bytes_of(i__in); let o = off_of(i__in);
-        if o < bs.len() && ws_dep(bs[o]) {
-            r matches Result::Complete(rest, b) && moved(i__in, rest, o + 1) && b == bs[o]
-        } else {
-            r is Fail
-        }
-    })
+        requires wf_osi(*s)
+        ensures pos_is(r, *s)
 //@   >>>
 //@ end
 
+// ---------- Token construction ----------
+// R7: `Token::new<S: Into<Rc<str>>, P: Into<Position>>` is used by the comment recogniser at S = String,
+// P = &OffsetStrIter; `p.into()` is then `<Position as From<&OffsetStrIter>>::from(p)` (src/iter.rs, extracted above).
+//@ extract src/ast/mod.rs :: impl Token :: fn new
+//@   rule R0
+//@   subst "new<S: Into<Rc<str>>, P: Into<Position>>(f: S, typ: TokenType, p: P)" => "new<'a>(f: String, typ: TokenType, p: &'a OffsetStrIter<'a>)"
+//@   subst "p.into()" => "Position::from(p)"
+//@   ret r
+//@   sig <<<
+        requires wf_osi(*p)
+        ensures r.fragment@ == f@, r.typ == typ, pos_is(r.pos, *p)
+//@   >>>
+//@ end
+//@ extract src/ast/mod.rs :: impl Token :: fn new_with_pos
+//@   subst "new_with_pos<S: Into<Rc<str>>>(f: S," => "new_with_pos(f: String,"
+//@   ret r
+//@   sig <<<
+        ensures r.fragment@ == f@, r.typ == typ, r.pos == pos
+//@   >>>
+//@ end
+//@ extract src/ast/mod.rs :: macro make_tok
+//@   rule R0
+//@ end
 
-// ---------- text_token!: "the input starts with this text" ----------
-pub open spec fn lit(s: &str) -> Seq<u8> { encode_utf8(s@) }
-pub open spec fn prefix_matches(bs: Seq<u8>, o: int, e: Seq<u8>, k: int) -> bool {
-    forall|j: int| 0 <= j < k ==> bs[o + j] == #[trigger] e[j]
-}
-pub open spec fn starts_with_at(bs: Seq<u8>, o: int, e: Seq<u8>) -> bool {
-    0 <= o && o + e.len() <= bs.len() && prefix_matches(bs, o, e, e.len() as int)
-}
-// clauses of the loop of text_token!(start, e): k bytes of e have been compared, `count` of them were equal
-pub open spec fn text_token_inv(start: OffsetStrIter, cur: OffsetStrIter, it: Seq<u8>, e: &str, k: int, count: int) -> bool {
-    &&& it == lit(e) && 0 <= k <= it.len() && 0 <= count <= k
-    &&& moved(start, cur, off_of(start) + k)
-    &&& (count == k) == prefix_matches(bytes_of(start), off_of(start), it, k)
-}
-pub open spec fn text_token_done(start: OffsetStrIter, cur: OffsetStrIter, e: &str, count: int) -> bool {
-    &&& wf_osi(cur) && same_frame(cur, start) && 0 <= count <= lit(e).len()
-    &&& (count == lit(e).len()) == starts_with_at(bytes_of(start), off_of(start), lit(e))
-    &&& count == lit(e).len() ==> off_of(cur) == off_of(start) + lit(e).len()
-}
+// =====================================================================================================
+// UTF-8: "the stepper stands on a character boundary"
+// =====================================================================================================
+// on_boundary(bs, k): the rest of the text from k on is well-formed UTF-8 (vstd::utf8::valid_utf8).  For the bytes of a
+// &str this is `str::is_char_boundary(k)` (lemma_boundary_is_char_boundary), and it holds at every ASCII byte and at the
+// end (lemma_ascii_on_boundary): nothing here is a caller obligation.
+pub open spec fn on_boundary(bs: Seq<u8>, k: int) -> bool { 0 <= k <= bs.len() && valid_utf8(bs.skip(k)) }
 
-// the byte values of the literals the recognisers below look for (vstd::utf8::encode_utf8 of ASCII text)
-pub proof fn lemma_ascii1(a: char)
-    requires (a as u32) < 0x80
-    ensures encode_utf8(seq![a]) =~= seq![a as u8]
+// a byte on a boundary is not a continuation byte (10xxxxxx); an ASCII byte is a whole character
+pub proof fn lemma_boundary_step(bs: Seq<u8>, k: int)
+    requires on_boundary(bs, k), k < bs.len()
+    ensures !is_continuation_byte(bs[k]), bs[k] != 0x85, bs[k] != 0xA0, bs[k] < 0x80 ==> on_boundary(bs, k + 1),
 {
-    reveal_with_fuel(encode_utf8, 2);
-    assert(seq![a].drop_first() =~= Seq::<char>::empty());
-    let x = a as u32;
-    assert(x < 0x80 ==> (x & 0x7f) as u8 == x as u8) by (bit_vector);
+    reveal_with_fuel(valid_utf8, 2);
+    assert(bs.skip(k)[0] == bs[k]);
+    assert(bs.skip(k).skip(1) =~= bs.skip(k + 1));
+    assert(0x85u8 & 0xC0 == 0x80 && 0xA0u8 & 0xC0 == 0x80) by (bit_vector);
 }
-pub proof fn lemma_ascii2(a: char, b: char)
-    requires (a as u32) < 0x80, (b as u32) < 0x80
-    ensures encode_utf8(seq![a, b]) =~= seq![a as u8, b as u8]
+pub proof fn lemma_ascii_steps(bs: Seq<u8>, o: int, n: int)
+    requires on_boundary(bs, o), 0 <= n, o + n <= bs.len(), forall|j: int| o <= j < o + n ==> #[trigger] bs[j] < 0x80
+    ensures on_boundary(bs, o + n)
+    decreases n
 {
-    lemma_ascii1(a); lemma_ascii1(b);
-    encode_utf8_concat(seq![a], seq![b]);
-    assert(seq![a] + seq![b] =~= seq![a, b]);
+    if n > 0 { lemma_ascii_steps(bs, o, n - 1); lemma_boundary_step(bs, o + n - 1); }
 }
-pub proof fn lemma_lits()
-    ensures lit("//") =~= seq![0x2Fu8, 0x2Fu8], lit("\r\n") =~= seq![0x0Du8, 0x0Au8], lit("\n") =~= seq![0x0Au8],
-{
-    reveal_strlit("//"); reveal_strlit("\r\n"); reveal_strlit("\n");
-    assert("//"@ =~= seq!['/', '/']); assert("\r\n"@ =~= seq!['\r', '\n']); assert("\n"@ =~= seq!['\n']);
-    lemma_ascii2('/', '/'); lemma_ascii2('\r', '\n'); lemma_ascii1('\n');
-}
-
-// ---------- comment ----------
-pub open spec fn is_lf(bs: Seq<u8>, j: int) -> bool { 0 <= j < bs.len() && bs[j] == 0x0A }
-pub open spec fn is_crlf(bs: Seq<u8>, j: int) -> bool { 0 <= j && j + 1 < bs.len() && bs[j] == 0x0D && bs[j + 1] == 0x0A }
-// the comment text ends at j: end of input, LF, or CR LF.  A CR that is not followed by LF is comment text.
-pub open spec fn cmt_ends_at(bs: Seq<u8>, j: int) -> bool { j >= bs.len() || is_lf(bs, j) || is_crlf(bs, j) }
-// the first such position at or after s
-pub open spec fn cmt_end(bs: Seq<u8>, s: int) -> int
-    decreases bs.len() - s
-{
-    if s >= bs.len() || cmt_ends_at(bs, s) { s } else { cmt_end(bs, s + 1) }
-}
-// where the next token starts: after the line terminator, which belongs to the comment token but not to its text
-pub open spec fn cmt_next(bs: Seq<u8>, e: int) -> int { if is_crlf(bs, e) { e + 2 } else if is_lf(bs, e) { e + 1 } else { e } }
-
-// the rule until! is used with, as the combinators see it: either!(eoi, text_token!("\r\n"), text_token!("\n"))
-pub open spec fn cmt_stop(bs: Seq<u8>, j: int) -> bool {
-    j >= bs.len() || starts_with_at(bs, j, lit("\r\n")) || starts_with_at(bs, j, lit("\n"))
-}
-pub proof fn lemma_cmt_stop(bs: Seq<u8>, j: int)
-    requires 0 <= j
-    ensures cmt_stop(bs, j) == cmt_ends_at(bs, j),
-        starts_with_at(bs, j, lit("\r\n")) == is_crlf(bs, j), starts_with_at(bs, j, lit("\n")) == is_lf(bs, j),
-{
-    lemma_lits();
-    let a = lit("\r\n"); let b = lit("\n");
-    if is_crlf(bs, j) { assert(prefix_matches(bs, j, a, 2)); }
-    if starts_with_at(bs, j, a) { assert(bs[j + 0] == a[0]); assert(bs[j + 1] == a[1]); }
-    if is_lf(bs, j) { assert(prefix_matches(bs, j, b, 1)); }
-    if starts_with_at(bs, j, b) { assert(bs[j + 0] == b[0]); }
-}
-pub proof fn lemma_cmt_end_least(bs: Seq<u8>, s: int, e: int)
-    requires 0 <= s <= e <= bs.len(), cmt_ends_at(bs, e), forall|j: int| s <= j < e ==> !cmt_ends_at(bs, j)
-    ensures cmt_end(bs, s) == e
-    decreases e - s
-{
-    if s < e { lemma_cmt_end_least(bs, s + 1, e); }
-}
-
-// clauses of the loop of until!(start, <the rule above>): no terminator between `start` and `cur`
-pub open spec fn until_inv(start: OffsetStrIter, cur: OffsetStrIter) -> bool {
-    &&& wf_osi(start) && on_boundary(bytes_of(start), off_of(start))
-    &&& moved(start, cur, off_of(cur)) && off_of(start) <= off_of(cur) <= bytes_of(start).len()
-    &&& forall|j: int| off_of(start) <= j < off_of(cur) ==> !cmt_stop(bytes_of(start), j)
-}
-pub open spec fn until_post<'a>(start: OffsetStrIter<'a>, r: Result<OffsetStrIter<'a>, &'a str>) -> bool {
-    r matches Result::Complete(rest, sp) && (until_inv(start, rest) && cmt_stop(bytes_of(start), off_of(rest))
-    && encode_utf8(sp@) == bytes_of(start).subrange(off_of(start), off_of(rest)))
-}
-
-// an ASCII byte of well-formed UTF-8 starts a character
+// a byte of well-formed UTF-8 that is not a continuation byte starts a character
 pub proof fn lemma_suffix_valid(bs: Seq<u8>, k: int)
     requires valid_utf8(bs), 0 <= k < bs.len(), !is_continuation_byte(bs[k])
     ensures valid_utf8(bs.skip(k))
@@ -215,6 +146,7 @@ pub proof fn lemma_boundary_is_char_boundary(s: &str, k: int)
         is_char_boundary_start_end_of_seq(bs);
     }
 }
+// in the bytes of a &str every ASCII byte, and the end, is a character boundary
 pub proof fn lemma_ascii_on_boundary(s: &str, k: int)
     requires 0 <= k <= encode_utf8(s@).len(), k < encode_utf8(s@).len() ==> encode_utf8(s@)[k] < 0x80
     ensures on_boundary(encode_utf8(s@), k)
@@ -229,6 +161,431 @@ pub proof fn lemma_ascii_on_boundary(s: &str, k: int)
         assert(bs.skip(k) =~= Seq::<u8>::empty());
     }
 }
+
+// =====================================================================================================
+// text_token!: "the input starts with this text"
+// =====================================================================================================
+pub open spec fn lit(s: &str) -> Seq<u8> { encode_utf8(s@) }
+pub open spec fn prefix_matches(bs: Seq<u8>, o: int, e: Seq<u8>, k: int) -> bool {
+    forall|j: int| 0 <= j < k ==> bs[o + j] == #[trigger] e[j]
+}
+pub open spec fn starts_with_at(bs: Seq<u8>, o: int, e: Seq<u8>) -> bool {
+    0 <= o && o + e.len() <= bs.len() && prefix_matches(bs, o, e, e.len() as int)
+}
+// clauses of the loop of text_token!(start, e): k bytes of e have been compared, `count` of them were equal
+pub open spec fn text_token_inv(start: OffsetStrIter, cur: OffsetStrIter, it: Seq<u8>, e: &str, k: int, count: int) -> bool {
+    &&& it == lit(e) && 0 <= k <= it.len() && 0 <= count <= k
+    &&& moved(start, cur, off_of(start) + k)
+    &&& (count == k) == prefix_matches(bytes_of(start), off_of(start), it, k)
+}
+pub open spec fn text_token_done(start: OffsetStrIter, cur: OffsetStrIter, e: &str, count: int) -> bool {
+    &&& wf_osi(cur) && same_frame(cur, start) && 0 <= count <= lit(e).len()
+    &&& (count == lit(e).len()) == starts_with_at(bytes_of(start), off_of(start), lit(e))
+    &&& count == lit(e).len() ==> off_of(cur) == off_of(start) + lit(e).len()
+}
+
+// ASCII text is its own UTF-8 (vstd::utf8::is_ascii_chars_encode_utf8)
+pub proof fn lemma_ascii_text(t: Seq<char>)
+    requires is_ascii_chars(t)
+    ensures encode_utf8(t).len() == t.len(),
+        forall|j: int| 0 <= j < t.len() ==> #[trigger] encode_utf8(t)[j] == t[j] as u8 && encode_utf8(t)[j] < 0x80,
+{
+    is_ascii_chars_encode_utf8(t);
+}
+// after a fixed ASCII text the stepper is on a character boundary again
+pub proof fn lemma_fixed_text(bs: Seq<u8>, o: int, t: Seq<char>)
+    requires is_ascii_chars(t)
+    ensures encode_utf8(t).len() == t.len(),
+        (on_boundary(bs, o) && starts_with_at(bs, o, encode_utf8(t))) ==> on_boundary(bs, o + t.len()),
+{
+    lemma_ascii_text(t);
+    let e = encode_utf8(t);
+    if on_boundary(bs, o) && starts_with_at(bs, o, e) {
+        assert forall|j: int| o <= j < o + t.len() implies #[trigger] bs[j] < 0x80 by {
+            assert(bs[o + (j - o)] == e[j - o]);
+        }
+        lemma_ascii_steps(bs, o, t.len() as int);
+    }
+}
+pub proof fn lemma_starts_1(bs: Seq<u8>, o: int, a: u8)
+    ensures starts_with_at(bs, o, seq![a]) == (0 <= o < bs.len() && bs[o] == a)
+{
+    let e = seq![a];
+    if starts_with_at(bs, o, e) { assert(bs[o + 0] == e[0]); }
+}
+pub proof fn lemma_starts_2(bs: Seq<u8>, o: int, a: u8, b: u8)
+    ensures starts_with_at(bs, o, seq![a, b]) == (0 <= o && o + 2 <= bs.len() && bs[o] == a && bs[o + 1] == b)
+{
+    let e = seq![a, b];
+    if starts_with_at(bs, o, e) { assert(bs[o + 0] == e[0]); assert(bs[o + 1] == e[1]); }
+}
+pub proof fn lemma_starts_first(bs: Seq<u8>, o: int, e: Seq<u8>)
+    requires e.len() > 0, starts_with_at(bs, o, e)
+    ensures 0 <= o < bs.len(), bs[o] == e[0]
+{
+    assert(bs[o + 0] == e[0]);
+}
+// the byte values of the literals the recognisers look for
+pub proof fn lemma_lits_1()
+    ensures
+        lit(",") =~= seq![0x2Cu8],
+        lit("{") =~= seq![0x7Bu8],
+        lit("}") =~= seq![0x7Du8],
+        lit("(") =~= seq![0x28u8],
+        lit(")") =~= seq![0x29u8],
+        lit("..") =~= seq![0x2Eu8, 0x2Eu8],
+        lit(".") =~= seq![0x2Eu8],
+        lit("+") =~= seq![0x2Bu8],
+{
+    reveal_strlit(","); lemma_ascii_text(","@);
+    reveal_strlit("{"); lemma_ascii_text("{"@);
+    reveal_strlit("}"); lemma_ascii_text("}"@);
+    reveal_strlit("("); lemma_ascii_text("("@);
+    reveal_strlit(")"); lemma_ascii_text(")"@);
+    reveal_strlit(".."); lemma_ascii_text(".."@);
+    reveal_strlit("."); lemma_ascii_text("."@);
+    reveal_strlit("+"); lemma_ascii_text("+"@);
+}
+pub proof fn lemma_lits_2()
+    ensures
+        lit("-") =~= seq![0x2Du8],
+        lit("*") =~= seq![0x2Au8],
+        lit("/") =~= seq![0x2Fu8],
+        lit("%%") =~= seq![0x25u8, 0x25u8],
+        lit("%") =~= seq![0x25u8],
+        lit("==") =~= seq![0x3Du8, 0x3Du8],
+        lit("!=") =~= seq![0x21u8, 0x3Du8],
+        lit("~") =~= seq![0x7Eu8],
+{
+    reveal_strlit("-"); lemma_ascii_text("-"@);
+    reveal_strlit("*"); lemma_ascii_text("*"@);
+    reveal_strlit("/"); lemma_ascii_text("/"@);
+    reveal_strlit("%%"); lemma_ascii_text("%%"@);
+    reveal_strlit("%"); lemma_ascii_text("%"@);
+    reveal_strlit("=="); lemma_ascii_text("=="@);
+    reveal_strlit("!="); lemma_ascii_text("!="@);
+    reveal_strlit("~"); lemma_ascii_text("~"@);
+}
+pub proof fn lemma_lits_3()
+    ensures
+        lit("!~") =~= seq![0x21u8, 0x7Eu8],
+        lit(">") =~= seq![0x3Eu8],
+        lit(">=") =~= seq![0x3Eu8, 0x3Du8],
+        lit("<=") =~= seq![0x3Cu8, 0x3Du8],
+        lit("<") =~= seq![0x3Cu8],
+        lit("=") =~= seq![0x3Du8],
+        lit(";") =~= seq![0x3Bu8],
+        lit("::") =~= seq![0x3Au8, 0x3Au8],
+{
+    reveal_strlit("!~"); lemma_ascii_text("!~"@);
+    reveal_strlit(">"); lemma_ascii_text(">"@);
+    reveal_strlit(">="); lemma_ascii_text(">="@);
+    reveal_strlit("<="); lemma_ascii_text("<="@);
+    reveal_strlit("<"); lemma_ascii_text("<"@);
+    reveal_strlit("="); lemma_ascii_text("="@);
+    reveal_strlit(";"); lemma_ascii_text(";"@);
+    reveal_strlit("::"); lemma_ascii_text("::"@);
+}
+pub proof fn lemma_lits_4()
+    ensures
+        lit(":") =~= seq![0x3Au8],
+        lit("[") =~= seq![0x5Bu8],
+        lit("]") =~= seq![0x5Du8],
+        lit("=>") =~= seq![0x3Du8, 0x3Eu8],
+        lit("&&") =~= seq![0x26u8, 0x26u8],
+        lit("||") =~= seq![0x7Cu8, 0x7Cu8],
+        lit("|") =~= seq![0x7Cu8],
+        lit("select") =~= seq![0x73u8, 0x65u8, 0x6Cu8, 0x65u8, 0x63u8, 0x74u8],
+{
+    reveal_strlit(":"); lemma_ascii_text(":"@);
+    reveal_strlit("["); lemma_ascii_text("["@);
+    reveal_strlit("]"); lemma_ascii_text("]"@);
+    reveal_strlit("=>"); lemma_ascii_text("=>"@);
+    reveal_strlit("&&"); lemma_ascii_text("&&"@);
+    reveal_strlit("||"); lemma_ascii_text("||"@);
+    reveal_strlit("|"); lemma_ascii_text("|"@);
+    reveal_strlit("select"); lemma_ascii_text("select"@);
+}
+pub proof fn lemma_lits_5()
+    ensures
+        lit("in") =~= seq![0x69u8, 0x6Eu8],
+        lit("is") =~= seq![0x69u8, 0x73u8],
+        lit("not") =~= seq![0x6Eu8, 0x6Fu8, 0x74u8],
+        lit("TRACE") =~= seq![0x54u8, 0x52u8, 0x41u8, 0x43u8, 0x45u8],
+        lit("fail") =~= seq![0x66u8, 0x61u8, 0x69u8, 0x6Cu8],
+        lit("func") =~= seq![0x66u8, 0x75u8, 0x6Eu8, 0x63u8],
+        lit("module") =~= seq![0x6Du8, 0x6Fu8, 0x64u8, 0x75u8, 0x6Cu8, 0x65u8],
+        lit("let") =~= seq![0x6Cu8, 0x65u8, 0x74u8],
+{
+    reveal_strlit("in"); lemma_ascii_text("in"@);
+    reveal_strlit("is"); lemma_ascii_text("is"@);
+    reveal_strlit("not"); lemma_ascii_text("not"@);
+    reveal_strlit("TRACE"); lemma_ascii_text("TRACE"@);
+    reveal_strlit("fail"); lemma_ascii_text("fail"@);
+    reveal_strlit("func"); lemma_ascii_text("func"@);
+    reveal_strlit("module"); lemma_ascii_text("module"@);
+    reveal_strlit("let"); lemma_ascii_text("let"@);
+}
+pub proof fn lemma_lits_6()
+    ensures
+        lit("import") =~= seq![0x69u8, 0x6Du8, 0x70u8, 0x6Fu8, 0x72u8, 0x74u8],
+        lit("include") =~= seq![0x69u8, 0x6Eu8, 0x63u8, 0x6Cu8, 0x75u8, 0x64u8, 0x65u8],
+        lit("assert") =~= seq![0x61u8, 0x73u8, 0x73u8, 0x65u8, 0x72u8, 0x74u8],
+        lit("out") =~= seq![0x6Fu8, 0x75u8, 0x74u8],
+        lit("constraint") =~= seq![0x63u8, 0x6Fu8, 0x6Eu8, 0x73u8, 0x74u8, 0x72u8, 0x61u8, 0x69u8, 0x6Eu8, 0x74u8],
+        lit("convert") =~= seq![0x63u8, 0x6Fu8, 0x6Eu8, 0x76u8, 0x65u8, 0x72u8, 0x74u8],
+        lit("as") =~= seq![0x61u8, 0x73u8],
+        lit("map") =~= seq![0x6Du8, 0x61u8, 0x70u8],
+{
+    reveal_strlit("import"); lemma_ascii_text("import"@);
+    reveal_strlit("include"); lemma_ascii_text("include"@);
+    reveal_strlit("assert"); lemma_ascii_text("assert"@);
+    reveal_strlit("out"); lemma_ascii_text("out"@);
+    reveal_strlit("constraint"); lemma_ascii_text("constraint"@);
+    reveal_strlit("convert"); lemma_ascii_text("convert"@);
+    reveal_strlit("as"); lemma_ascii_text("as"@);
+    reveal_strlit("map"); lemma_ascii_text("map"@);
+}
+pub proof fn lemma_lits_7()
+    ensures
+        lit("filter") =~= seq![0x66u8, 0x69u8, 0x6Cu8, 0x74u8, 0x65u8, 0x72u8],
+        lit("reduce") =~= seq![0x72u8, 0x65u8, 0x64u8, 0x75u8, 0x63u8, 0x65u8],
+        lit("NULL") =~= seq![0x4Eu8, 0x55u8, 0x4Cu8, 0x4Cu8],
+        lit("true") =~= seq![0x74u8, 0x72u8, 0x75u8, 0x65u8],
+        lit("false") =~= seq![0x66u8, 0x61u8, 0x6Cu8, 0x73u8, 0x65u8],
+        lit("\"") =~= seq![0x22u8],
+        lit("//") =~= seq![0x2Fu8, 0x2Fu8],
+        lit("\r\n") =~= seq![0x0Du8, 0x0Au8],
+{
+    reveal_strlit("filter"); lemma_ascii_text("filter"@);
+    reveal_strlit("reduce"); lemma_ascii_text("reduce"@);
+    reveal_strlit("NULL"); lemma_ascii_text("NULL"@);
+    reveal_strlit("true"); lemma_ascii_text("true"@);
+    reveal_strlit("false"); lemma_ascii_text("false"@);
+    reveal_strlit("\""); lemma_ascii_text("\""@);
+    reveal_strlit("//"); lemma_ascii_text("//"@);
+    reveal_strlit("\r\n"); lemma_ascii_text("\r\n"@);
+}
+pub proof fn lemma_lits_8()
+    ensures
+        lit("\n") =~= seq![0x0Au8],
+{
+    reveal_strlit("\n"); lemma_ascii_text("\n"@);
+}
+pub proof fn lemma_lits()
+    ensures
+        lit(",") =~= seq![0x2Cu8],
+        lit("{") =~= seq![0x7Bu8],
+        lit("}") =~= seq![0x7Du8],
+        lit("(") =~= seq![0x28u8],
+        lit(")") =~= seq![0x29u8],
+        lit("..") =~= seq![0x2Eu8, 0x2Eu8],
+        lit(".") =~= seq![0x2Eu8],
+        lit("+") =~= seq![0x2Bu8],
+        lit("-") =~= seq![0x2Du8],
+        lit("*") =~= seq![0x2Au8],
+        lit("/") =~= seq![0x2Fu8],
+        lit("%%") =~= seq![0x25u8, 0x25u8],
+        lit("%") =~= seq![0x25u8],
+        lit("==") =~= seq![0x3Du8, 0x3Du8],
+        lit("!=") =~= seq![0x21u8, 0x3Du8],
+        lit("~") =~= seq![0x7Eu8],
+        lit("!~") =~= seq![0x21u8, 0x7Eu8],
+        lit(">") =~= seq![0x3Eu8],
+        lit(">=") =~= seq![0x3Eu8, 0x3Du8],
+        lit("<=") =~= seq![0x3Cu8, 0x3Du8],
+        lit("<") =~= seq![0x3Cu8],
+        lit("=") =~= seq![0x3Du8],
+        lit(";") =~= seq![0x3Bu8],
+        lit("::") =~= seq![0x3Au8, 0x3Au8],
+        lit(":") =~= seq![0x3Au8],
+        lit("[") =~= seq![0x5Bu8],
+        lit("]") =~= seq![0x5Du8],
+        lit("=>") =~= seq![0x3Du8, 0x3Eu8],
+        lit("&&") =~= seq![0x26u8, 0x26u8],
+        lit("||") =~= seq![0x7Cu8, 0x7Cu8],
+        lit("|") =~= seq![0x7Cu8],
+        lit("select") =~= seq![0x73u8, 0x65u8, 0x6Cu8, 0x65u8, 0x63u8, 0x74u8],
+        lit("in") =~= seq![0x69u8, 0x6Eu8],
+        lit("is") =~= seq![0x69u8, 0x73u8],
+        lit("not") =~= seq![0x6Eu8, 0x6Fu8, 0x74u8],
+        lit("TRACE") =~= seq![0x54u8, 0x52u8, 0x41u8, 0x43u8, 0x45u8],
+        lit("fail") =~= seq![0x66u8, 0x61u8, 0x69u8, 0x6Cu8],
+        lit("func") =~= seq![0x66u8, 0x75u8, 0x6Eu8, 0x63u8],
+        lit("module") =~= seq![0x6Du8, 0x6Fu8, 0x64u8, 0x75u8, 0x6Cu8, 0x65u8],
+        lit("let") =~= seq![0x6Cu8, 0x65u8, 0x74u8],
+        lit("import") =~= seq![0x69u8, 0x6Du8, 0x70u8, 0x6Fu8, 0x72u8, 0x74u8],
+        lit("include") =~= seq![0x69u8, 0x6Eu8, 0x63u8, 0x6Cu8, 0x75u8, 0x64u8, 0x65u8],
+        lit("assert") =~= seq![0x61u8, 0x73u8, 0x73u8, 0x65u8, 0x72u8, 0x74u8],
+        lit("out") =~= seq![0x6Fu8, 0x75u8, 0x74u8],
+        lit("constraint") =~= seq![0x63u8, 0x6Fu8, 0x6Eu8, 0x73u8, 0x74u8, 0x72u8, 0x61u8, 0x69u8, 0x6Eu8, 0x74u8],
+        lit("convert") =~= seq![0x63u8, 0x6Fu8, 0x6Eu8, 0x76u8, 0x65u8, 0x72u8, 0x74u8],
+        lit("as") =~= seq![0x61u8, 0x73u8],
+        lit("map") =~= seq![0x6Du8, 0x61u8, 0x70u8],
+        lit("filter") =~= seq![0x66u8, 0x69u8, 0x6Cu8, 0x74u8, 0x65u8, 0x72u8],
+        lit("reduce") =~= seq![0x72u8, 0x65u8, 0x64u8, 0x75u8, 0x63u8, 0x65u8],
+        lit("NULL") =~= seq![0x4Eu8, 0x55u8, 0x4Cu8, 0x4Cu8],
+        lit("true") =~= seq![0x74u8, 0x72u8, 0x75u8, 0x65u8],
+        lit("false") =~= seq![0x66u8, 0x61u8, 0x6Cu8, 0x73u8, 0x65u8],
+        lit("\"") =~= seq![0x22u8],
+        lit("//") =~= seq![0x2Fu8, 0x2Fu8],
+        lit("\r\n") =~= seq![0x0Du8, 0x0Au8],
+        lit("\n") =~= seq![0x0Au8],
+{
+    lemma_lits_1();
+    lemma_lits_2();
+    lemma_lits_3();
+    lemma_lits_4();
+    lemma_lits_5();
+    lemma_lits_6();
+    lemma_lits_7();
+    lemma_lits_8();
+}
+
+// =====================================================================================================
+// whitespace
+// =====================================================================================================
+// the oracle: ASCII whitespace = u8::is_ascii_whitespace (space, \t, \n, form feed, \r) plus vertical tab.  The reference
+// grammar only says "WS is any non-visible utf-8 whitespace"; `ascii_ws` of the pinned abortable_parser 0.2.3 asks
+// `(byte as char).is_whitespace()`, i.e. exactly these six bytes plus 0x85 and 0xA0 (lemma_ws_dep_set), which in the
+// bytes of a &str only occur inside multi-byte characters (lemma_ws_run_is_ascii).
+pub open spec fn ws_ascii(b: u8) -> bool { b == 0x20 || b == 0x09 || b == 0x0A || b == 0x0B || b == 0x0C || b == 0x0D }
+pub proof fn lemma_ws_dep_set(b: u8)
+    ensures ws_dep(b) == (ws_ascii(b) || b == 0x85 || b == 0xA0)
+{
+}
+// end of the maximal run of bytes `ascii_ws` accepts that starts at k
+pub open spec fn ws_end(bs: Seq<u8>, k: int) -> int
+    decreases bs.len() - k
+{
+    if 0 <= k < bs.len() && ws_dep(bs[k]) { ws_end(bs, k + 1) } else { k }
+}
+// ... and of the maximal run of ASCII whitespace (the oracle)
+pub open spec fn ws_ascii_end(bs: Seq<u8>, k: int) -> int
+    decreases bs.len() - k
+{
+    if 0 <= k < bs.len() && ws_ascii(bs[k]) { ws_ascii_end(bs, k + 1) } else { k }
+}
+pub proof fn lemma_ws_end_bounds(bs: Seq<u8>, k: int)
+    requires 0 <= k <= bs.len()
+    ensures k <= ws_end(bs, k) <= bs.len(), k <= ws_ascii_end(bs, k) <= bs.len(),
+    decreases bs.len() - k
+{
+    if k < bs.len() { lemma_ws_end_bounds(bs, k + 1); }
+}
+// On a character boundary of well-formed UTF-8 the two extra bytes never occur: the run `ascii_ws` consumes is the run
+// of ASCII whitespace, and it ends on a character boundary again.
+pub proof fn lemma_ws_run_is_ascii(bs: Seq<u8>, k: int)
+    requires on_boundary(bs, k)
+    ensures ws_end(bs, k) == ws_ascii_end(bs, k), on_boundary(bs, ws_end(bs, k)),
+    decreases bs.len() - k
+{
+    if k < bs.len() {
+        lemma_boundary_step(bs, k);
+        lemma_ws_dep_set(bs[k]);
+        if ws_dep(bs[k]) { lemma_ws_run_is_ascii(bs, k + 1); }
+    }
+}
+// clauses of the loop in repeat!(ascii_ws): `cur` is `start` moved forward inside the run that begins at `start`
+pub open spec fn repeat_inv(start: OffsetStrIter, cur: OffsetStrIter) -> bool {
+    &&& wf_osi(start) && moved(start, cur, off_of(cur))
+    &&& off_of(start) <= off_of(cur) <= bytes_of(start).len()
+    &&& ws_end(bytes_of(start), off_of(cur)) == ws_end(bytes_of(start), off_of(start))
+}
+pub open spec fn repeat_done(start: OffsetStrIter, cur: OffsetStrIter) -> bool {
+    &&& wf_osi(start) && moved(start, cur, off_of(cur))
+    &&& off_of(cur) == ws_end(bytes_of(start), off_of(start))
+}
+pub open spec fn repeat_left(cur: OffsetStrIter) -> int { bytes_of(cur).len() - off_of(cur) }
+
+pub open spec fn whitespace_tok<'a>(i: OffsetStrIter<'a>, r: Result<OffsetStrIter<'a>, Token>) -> bool {
+    let bs = bytes_of(i); let o = off_of(i);
+    &&& if ws_end(bs, o) == o {
+            // empty run: no token
+            r is Fail
+        } else {
+            // exactly the maximal run is consumed; one WS token with empty text at the true start position
+            r matches Result::Complete(rest, tok) && moved(i, rest, ws_end(bs, o))
+            && tok.typ is WS && tok.fragment@ =~= Seq::<char>::empty() && pos_is(tok.pos, i)
+        }
+    // the run is the run of ASCII whitespace (space, \t, \n, VT, FF, \r) whenever the stepper stands on a character
+    // boundary (it always does: `tokenize` keeps it there)
+    &&& on_boundary(bs, o) ==> ws_end(bs, o) == ws_ascii_end(bs, o) && on_boundary(bs, ws_end(bs, o))
+}
+
+//@ extract src/tokenizer/mod.rs :: make_fn whitespace
+//@   ret r
+//@   sig <<<
+    requires wf_osi(i)
+    ensures whitespace_tok(i, r)
+//@   >>>
+//@   body_start <<<
+    proof {
+        reveal_strlit("");
+        lemma_ws_end_bounds(bytes_of(i), off_of(i));
+        if off_of(i) < bytes_of(i).len() { lemma_ws_end_bounds(bytes_of(i), off_of(i) + 1); }
+        if on_boundary(bytes_of(i), off_of(i)) { lemma_ws_run_is_ascii(bytes_of(i), off_of(i)); }
+    }
+//@   >>>
+//@   mutant ws_empty_run "_ => peek!(ascii_ws)," => "" expect whitespace
+//@   mutant ws_single_byte "_ => repeat!(ascii_ws)," => "_ => ascii_ws," expect whitespace
+//@   mutant ws_pos_at_end "span => input!(), _ => peek!(ascii_ws), _ => repeat!(ascii_ws)," => "_ => peek!(ascii_ws), _ => repeat!(ascii_ws), span => input!()," expect whitespace
+//@ end
+
+// =====================================================================================================
+// comment
+// =====================================================================================================
+pub open spec fn is_lf(bs: Seq<u8>, j: int) -> bool { 0 <= j < bs.len() && bs[j] == 0x0A }
+pub open spec fn is_crlf(bs: Seq<u8>, j: int) -> bool { 0 <= j && j + 1 < bs.len() && bs[j] == 0x0D && bs[j + 1] == 0x0A }
+// the comment text ends at j: end of input, LF, or CR LF.  A CR that is not followed by LF is comment text.
+pub open spec fn cmt_ends_at(bs: Seq<u8>, j: int) -> bool { j >= bs.len() || is_lf(bs, j) || is_crlf(bs, j) }
+// the first such position at or after s
+pub open spec fn cmt_end(bs: Seq<u8>, s: int) -> int
+    decreases bs.len() - s
+{
+    if s >= bs.len() || cmt_ends_at(bs, s) { s } else { cmt_end(bs, s + 1) }
+}
+// where the next token starts: after the line terminator, which belongs to the comment token but not to its text
+pub open spec fn cmt_next(bs: Seq<u8>, e: int) -> int { if is_crlf(bs, e) { e + 2 } else if is_lf(bs, e) { e + 1 } else { e } }
+pub open spec fn starts_comment(bs: Seq<u8>, o: int) -> bool { 0 <= o && o + 2 <= bs.len() && bs[o] == 0x2F && bs[o + 1] == 0x2F }
+
+pub proof fn lemma_cmt_end_bounds(bs: Seq<u8>, s: int)
+    requires 0 <= s <= bs.len()
+    ensures s <= cmt_end(bs, s) <= bs.len(), s <= cmt_next(bs, cmt_end(bs, s)) <= bs.len()
+    decreases bs.len() - s
+{
+    if s < bs.len() && !cmt_ends_at(bs, s) { lemma_cmt_end_bounds(bs, s + 1); }
+}
+
+// the rule until! is used with, as the combinators see it: either!(eoi, text_token!("\r\n"), text_token!("\n"))
+pub open spec fn cmt_stop(bs: Seq<u8>, j: int) -> bool {
+    j >= bs.len() || starts_with_at(bs, j, lit("\r\n")) || starts_with_at(bs, j, lit("\n"))
+}
+pub proof fn lemma_cmt_stop(bs: Seq<u8>, j: int)
+    requires 0 <= j
+    ensures cmt_stop(bs, j) == cmt_ends_at(bs, j),
+        starts_with_at(bs, j, lit("\r\n")) == is_crlf(bs, j), starts_with_at(bs, j, lit("\n")) == is_lf(bs, j),
+{
+    lemma_lits();
+    lemma_starts_2(bs, j, 0x0D, 0x0A); lemma_starts_1(bs, j, 0x0A);
+}
+pub proof fn lemma_cmt_end_least(bs: Seq<u8>, s: int, e: int)
+    requires 0 <= s <= e <= bs.len(), cmt_ends_at(bs, e), forall|j: int| s <= j < e ==> !cmt_ends_at(bs, j)
+    ensures cmt_end(bs, s) == e
+    decreases e - s
+{
+    if s < e { lemma_cmt_end_least(bs, s + 1, e); }
+}
+// clauses of the loop of until!(start, <the rule above>): no terminator between `start` and `cur`
+pub open spec fn until_inv(start: OffsetStrIter, cur: OffsetStrIter) -> bool {
+    &&& wf_osi(start) && on_boundary(bytes_of(start), off_of(start))
+    &&& moved(start, cur, off_of(cur)) && off_of(start) <= off_of(cur) <= bytes_of(start).len()
+    &&& forall|j: int| off_of(start) <= j < off_of(cur) ==> !cmt_stop(bytes_of(start), j)
+}
+pub open spec fn until_post<'a>(start: OffsetStrIter<'a>, r: Result<OffsetStrIter<'a>, &'a str>) -> bool {
+    r matches Result::Complete(rest, sp) && (until_inv(start, rest) && cmt_stop(bytes_of(start), off_of(rest))
+    && encode_utf8(sp@) == bytes_of(start).subrange(off_of(start), off_of(rest)))
+}
 // the span until! cuts out lies on character boundaries
 pub proof fn lemma_until_span(start: OffsetStrIter, cur: OffsetStrIter)
     requires until_inv(start, cur), cmt_stop(bytes_of(start), off_of(cur))
@@ -241,173 +598,37 @@ pub proof fn lemma_until_span(start: OffsetStrIter, cur: OffsetStrIter)
     lemma_boundary_is_char_boundary(start.contained.source, off_of(cur));
 }
 
-//@ extract dep:abortable_parser/src/combinators.rs :: fn eoi
-//@   subst "eoi<I: InputIter>(i: I) -> Result<I, ()>" => "eoi<'a>(i: OffsetStrIter<'a>) -> Result<OffsetStrIter<'a>, ()>"
-//@   subst "\"Expected End Of Input\".to_string()" => "verif_msg()"
-//@   ret r
-//@   sig <<<
-    requires wf_osi(i)
-    ensures
-        off_of(i) >= bytes_of(i).len() ==> (r matches Result::Complete(rest, _u) && rest == i),
-        off_of(i) < bytes_of(i).len() ==> r is Fail,
-//@   >>>
-//@ end
-
-// `$crate::combinators::optional` of optional!: the function lives in a module of that name
-pub mod combinators {
-    use super::*;
-//@ extract dep:abortable_parser/src/combinators.rs :: fn optional
-//@   subst "where I: InputIter," => ""
-//@   ret r
-//@   sig <<<
-    ensures
-        result matches Result::Complete(i, o) ==> r == Result::<I, Option<O>>::Complete(i, Some(o)),
-        result is Fail ==> r == Result::<I, Option<O>>::Complete(iter, None),
-        result is Incomplete ==> r is Incomplete,
-        result is Abort ==> r is Abort,
-//@   >>>
-//@ end
+pub open spec fn comment_tok<'a>(input: OffsetStrIter<'a>, r: Result<OffsetStrIter<'a>, Token>) -> bool {
+    let bs = bytes_of(input); let o = off_of(input);
+    if !starts_comment(bs, o) {
+        // does not start with `//`: not a comment
+        r is Fail
+    } else {
+        let s = o + 2; let e = cmt_end(bs, s);
+        // one COMMENT token: its text is exactly the bytes between `//` and the terminator, its position is the
+        // true position of the first `/`; the next token starts after the terminator, on a character boundary
+        r matches Result::Complete(rest, tok) && moved(input, rest, cmt_next(bs, e))
+        && tok.typ is COMMENT && encode_utf8(tok.fragment@) == bs.subrange(s, e) && pos_is(tok.pos, input)
+        && on_boundary(bs, cmt_next(bs, e))
+    }
 }
 
-// ---------- spans: the text between two byte offsets ----------
-//@ extract dep:abortable_parser/src/lib.rs :: enum SpanRange
-//@   rule R0
-//@ end
-
-pub open spec fn span_ok(bs: Seq<u8>, a: int, b: int) -> bool {
-    0 <= a <= b <= bs.len() && is_char_boundary(bs, a) && is_char_boundary(bs, b)
-}
-
-// TRUSTED (opaque_body): StrIter::span is `self.source.index(r)` for each of the four range forms, i.e.
-// `<str as Index<Range<usize>>>::index` for the only form the tokenizer uses (Verus cannot take the generic
-// `impl<I: SliceIndex<str>> Index<I> for str`).  std: "Returns a slice of the given string from the byte range
-// [begin, end). Panics if begin or end does not point to the starting byte offset of a character (as defined by
-// is_char_boundary), if begin > end, or if end > len".  vstd::utf8::is_char_boundary is vstd's model of
-// str::is_char_boundary.  The `requires` is the no-panic condition.
-//@ extract dep:abortable_parser/src/iter.rs :: impl * Span<&'a str> for StrIter<'a> :: fn span
-//@   impl_header impl<'a> StrIter<'a>
-//@   opaque_body
-//@   ret r
-//@   sig <<<
-        requires idx matches SpanRange::Range(rg) && span_ok(src_bytes(*self), rg.start as int, rg.end as int)
-        ensures idx matches SpanRange::Range(rg) && encode_utf8(r@) == src_bytes(*self).subrange(rg.start as int, rg.end as int)
-//@   >>>
-//@ end
-//@ extract src/iter.rs :: impl * Span<&'a str> for OffsetStrIter<'a> :: fn span
-//@   impl_header impl<'a> OffsetStrIter<'a>
-//@   ret r
-//@   sig <<<
-        requires idx matches SpanRange::Range(rg) && span_ok(bytes_of(*self), rg.start as int, rg.end as int)
-        ensures idx matches SpanRange::Range(rg) && encode_utf8(r@) == bytes_of(*self).subrange(rg.start as int, rg.end as int)
-//@   >>>
-//@ end
-
-// ---------- Token construction ----------
-// `String -> Rc<str>` (`f.into()`): std `impl From<String> for Rc<str>`, content preserved.
-pub assume_specification [<Rc<str> as From<String>>::from] (s: String) -> (r: Rc<str>)
-    ensures r@ == s@;
-
-// R7: `Token::new<S: Into<Rc<str>>, P: Into<Position>>` is used by the comment recogniser at S = String,
-// P = &OffsetStrIter; `p.into()` is then `<Position as From<&OffsetStrIter>>::from(p)` (src/iter.rs, extracted above).
-//@ extract src/ast/mod.rs :: impl Token :: fn new
-//@   subst "new<S: Into<Rc<str>>, P: Into<Position>>(f: S, typ: TokenType, p: P)" => "new<'a>(f: String, typ: TokenType, p: &'a OffsetStrIter<'a>)"
-//@   subst "p.into()" => "Position::from(p)"
-//@   ret r
-//@   sig <<<
-        requires wf_osi(*p)
-        ensures r.fragment@ == f@, r.typ == typ, pos_is(r.pos, *p)
-//@   >>>
-//@ end
-//@ extract src/ast/mod.rs :: impl Token :: fn new_with_pos
-//@   subst "new_with_pos<S: Into<Rc<str>>>(f: S," => "new_with_pos(f: String,"
-//@   ret r
-//@   sig <<<
-        ensures r.fragment@ == f@, r.typ == typ, r.pos == pos
-//@   >>>
-//@ end
-//@ extract src/ast/mod.rs :: macro make_tok
-//@   rule R0
-//@ end
-
-} // verus!
-
-//@ extract dep:abortable_parser/src/combinators.rs :: macro run
-//@ end
-//@ extract dep:abortable_parser/src/combinators.rs :: macro do_each
-//@ end
-//@ extract dep:abortable_parser/src/combinators.rs :: macro input
-//@ end
-//@ extract dep:abortable_parser/src/combinators.rs :: macro peek
-//@ end
-//@ extract dep:abortable_parser/src/combinators.rs :: macro either
-//@ end
-//@ extract dep:abortable_parser/src/combinators.rs :: macro discard
-//@ end
-//@ extract dep:abortable_parser/src/combinators.rs :: macro optional
-//@ end
-// text_token!: verbatim except for the `for` loop head (R13 by hand: Verus has no model of `str::bytes()`; std documents
-// `Bytes` as the iterator over `as_bytes()`, so the loop walks `as_bytes()` by index in the same order) and R1 (message
-// text).  The other substs only INSERT the verus_exec_expr! wrapper, the loop clauses and one proof hint.
-//@ extract dep:abortable_parser/src/combinators.rs :: macro text_token
-//@   rule R1
-//@   subst "{{ use $crate::Error;" => "{ verus_exec_expr!{ { use $crate::Error;"
-//@   subst "let mut _i = $i.clone(); let mut count = 0;" => "let mut _i = $i.clone(); let ghost i0__ = _i; let mut count = 0;"
-//@   subst "Box::new($i.clone()), )) } }};" => "Box::new($i.clone()), )) } } } };"
-//@   subst "for expected in $e.bytes() {" => "let it__1 = $e.as_bytes(); let mut i__1: usize = 0; while i__1 < it__1.len() invariant_except_break text_token_inv(i0__, _i, it__1@, $e, i__1 as int, count as int), ensures text_token_done(i0__, _i, $e, count as int), decreases it__1.len() - i__1 { let expected = it__1[i__1]; i__1 += 1;"
-//@   subst "if count == $e.len() {" => "proof { axiom_str_len_bound($e); } if count == $e.len() {"
-//@ end
-// until!: the closure `|| { loop { .. return .. } }` captures `_i` by mutable reference, which Verus does not support
-// ("closures capturing a mutable reference"); the closure takes `_i` by value instead and is called with it (`_i` is not
-// used after the call, so moving it in is the same computation).  `use $crate::{.., Offsetable, Span, ..}` loses the two
-// trait imports (their methods are inherent methods in this one-file crate).  Everything else: inserted clauses.
-//@ extract dep:abortable_parser/src/combinators.rs :: macro until
-//@   subst "{{ use $crate::{Result, Offsetable, Span, SpanRange};" => "{ verus_exec_expr!{ { use $crate::{Result, SpanRange};"
-//@   subst "let pfn = || {" => "let ghost i0__ = _i; let pfn = |mut _i: OffsetStrIter<'a>| -> (r__: Result<OffsetStrIter<'a>, &'a str>) requires until_inv(i0__, _i) ensures until_post(i0__, r__) {"
-//@   subst "loop {" => "loop invariant until_inv(i0__, _i), start_offset == off_of(i0__), i0__ == $i, decreases repeat_left(_i) {"
-//@   subst "return Result::Complete(_i, $i.span(range));" => "proof { lemma_until_span(i0__, _i); } return Result::Complete(_i, $i.span(range));"
-//@   subst "pfn() }};" => "pfn(_i) } } };"
-//@ end
-// repeat!: verbatim; the three substs only INSERT the verus_exec_expr! wrapper (Verus clause syntax inside a
-// macro_rules body) and the loop clauses. `repeat_inv`/`repeat_done`/`repeat_left` are defined below for the one use
-// the tokenizer makes of it: repeat!(ascii_ws) over an OffsetStrIter.
-//@ extract dep:abortable_parser/src/combinators.rs :: macro repeat
-//@   subst "{{ let mut _i = $i.clone(); let mut seq = Vec::new();" => "{ verus_exec_expr!{ { let mut _i = $i.clone(); let ghost i0__ = _i; let mut seq = Vec::new();"
-//@   subst "None => $crate::Result::Complete(_i, seq), } }};" => "None => $crate::Result::Complete(_i, seq), } } } };"
-//@   subst "loop {" => "loop invariant opt_error is None, repeat_inv(i0__, _i), ensures opt_error is None, repeat_done(i0__, _i), decreases repeat_left(_i) {"
-//@ end
-
-verus! {
-
-// ---------- comment ----------
 //@ extract src/tokenizer/mod.rs :: fn comment
 // names the elided lifetime (the closure signature inside until! has to mention it)
 //@   subst "fn comment(input: OffsetStrIter) -> Result<OffsetStrIter, Token>" => "fn comment<'a>(input: OffsetStrIter<'a>) -> Result<OffsetStrIter<'a>, Token>"
-//@   subst all "\"Unparsable comment\".to_string()" => "verif_msg()"
 //@   ret r
 //@   sig <<<
-    requires wf_osi(input), on_boundary(bytes_of(input), off_of(input))
-    ensures ({
-        let bs = bytes_of(input); let o = off_of(input);
-        if !(o + 2 <= bs.len() && bs[o] == 0x2F && bs[o + 1] == 0x2F) {
-            // does not start with `//`: not a comment
-            r is Fail
-        } else {
-            let s = o + 2; let e = cmt_end(bs, s);
-            // one COMMENT token: its text is exactly the bytes between `//` and the terminator, its position is the
-            // true position of the first `/`; the next token starts after the terminator, on a character boundary
-            r matches Result::Complete(rest, tok) && moved(input, rest, cmt_next(bs, e))
-            && tok.typ is COMMENT && encode_utf8(tok.fragment@) == bs.subrange(s, e) && pos_is(tok.pos, input)
-            && on_boundary(bs, cmt_next(bs, e))
-        }
-    })
+    requires wf_osi(input)
+    ensures comment_tok(input, r)
 //@   >>>
 //@   body_start <<<
     proof {
         lemma_lits();
         let bs = bytes_of(input); let o = off_of(input);
-        if starts_with_at(bs, o, lit("//")) { assert(bs[o + 0] == lit("//")[0]); assert(bs[o + 1] == lit("//")[1]); }
-        if o + 2 <= bs.len() && bs[o] == 0x2F && bs[o + 1] == 0x2F {
-            assert(prefix_matches(bs, o, lit("//"), 2));
+        lemma_starts_2(bs, o, 0x2F, 0x2F);
+        if starts_comment(bs, o) {
+            // `/` is ASCII: the stepper stands on a character boundary, and so does the text after `//`
+            lemma_ascii_on_boundary(input.contained.source, o);
             lemma_boundary_step(bs, o); lemma_boundary_step(bs, o + 1);
         }
     }
@@ -432,108 +653,775 @@ verus! {
 //@   mutant cmt_needs_newline "either!( eoi, discard!" => "either!( discard!" expect comment
 //@ end
 
-// ---------- whitespace ----------
-// end of the maximal run of bytes satisfying `ws_dep` that starts at k
-pub open spec fn ws_end(bs: Seq<u8>, k: int) -> int
-    decreases bs.len() - k
-{
-    if 0 <= k < bs.len() && ws_dep(bs[k]) { ws_end(bs, k + 1) } else { k }
-}
-// ... and of the maximal run of ASCII whitespace (the oracle)
-pub open spec fn ws_ascii_end(bs: Seq<u8>, k: int) -> int
-    decreases bs.len() - k
-{
-    if 0 <= k < bs.len() && ws_ascii(bs[k]) { ws_ascii_end(bs, k + 1) } else { k }
-}
-
-pub proof fn lemma_ws_end_bounds(bs: Seq<u8>, k: int)
-    requires 0 <= k <= bs.len()
-    ensures k <= ws_end(bs, k) <= bs.len(), k <= ws_ascii_end(bs, k) <= bs.len(),
-    decreases bs.len() - k
-{
-    if k < bs.len() { lemma_ws_end_bounds(bs, k + 1); }
-}
-
-// The set `ascii_ws` accepts, byte by byte: ASCII whitespace plus 0x85 (NEL) and 0xA0 (NBSP) read as Latin-1.
-pub proof fn lemma_ws_dep_set(b: u8)
-    ensures ws_dep(b) == (ws_ascii(b) || b == 0x85 || b == 0xA0)
-{
-}
-
-// ---------- UTF-8: "the stepper stands on a character boundary" ----------
-// on_boundary(bs, k): the rest of the text from k on is well-formed UTF-8 (vstd::utf8::valid_utf8).  For the bytes of a
-// &str this is the same as `str::is_char_boundary(k)` (lemma_boundary_is_char_boundary).
-pub open spec fn on_boundary(bs: Seq<u8>, k: int) -> bool { 0 <= k <= bs.len() && valid_utf8(bs.skip(k)) }
-
-// a byte on a boundary is not a continuation byte (10xxxxxx); an ASCII byte is a whole character
-pub proof fn lemma_boundary_step(bs: Seq<u8>, k: int)
-    requires on_boundary(bs, k), k < bs.len()
-    ensures !is_continuation_byte(bs[k]), bs[k] != 0x85, bs[k] != 0xA0, bs[k] < 0x80 ==> on_boundary(bs, k + 1),
-{
-    reveal_with_fuel(valid_utf8, 2);
-    assert(bs.skip(k)[0] == bs[k]);
-    assert(bs.skip(k).skip(1) =~= bs.skip(k + 1));
-    assert(0x85u8 & 0xC0 == 0x80 && 0xA0u8 & 0xC0 == 0x80) by (bit_vector);
-}
-
-// On a character boundary of well-formed UTF-8 the two extra bytes never occur: the run `ascii_ws` consumes is the run
-// of ASCII whitespace, and it ends on a character boundary again.
-pub proof fn lemma_ws_run_is_ascii(bs: Seq<u8>, k: int)
-    requires on_boundary(bs, k)
-    ensures ws_end(bs, k) == ws_ascii_end(bs, k), on_boundary(bs, ws_end(bs, k)),
-    decreases bs.len() - k
-{
-    if k < bs.len() {
-        lemma_boundary_step(bs, k);
-        lemma_ws_dep_set(bs[k]);
-        if ws_dep(bs[k]) { lemma_ws_run_is_ascii(bs, k + 1); }
+// =====================================================================================================
+// fixed-text recognisers: operators, punctuation (do_text_token_tok!) and keywords (its WS variant)
+// =====================================================================================================
+// succeeds iff the input starts with the text; the token is that text, at the true position; nothing else is consumed
+pub open spec fn fixed_tok<'a>(i: OffsetStrIter<'a>, r: Result<OffsetStrIter<'a>, Token>, text: &str, typ: TokenType) -> bool {
+    let bs = bytes_of(i); let o = off_of(i); let n = lit(text).len();
+    if starts_with_at(bs, o, lit(text)) {
+        r matches Result::Complete(rest, tok) && moved(i, rest, o + n)
+        && tok.typ == typ && tok.fragment@ == text@ && pos_is(tok.pos, i)
+        && (on_boundary(bs, o) ==> on_boundary(bs, o + n))
+    } else {
+        r is Fail
     }
 }
-
-// clauses of the loop in repeat!(ascii_ws): `cur` is `start` moved forward inside the run that begins at `start`
-pub open spec fn repeat_inv(start: OffsetStrIter, cur: OffsetStrIter) -> bool {
-    &&& wf_osi(start) && moved(start, cur, off_of(cur))
-    &&& off_of(start) <= off_of(cur) <= bytes_of(start).len()
-    &&& ws_end(bytes_of(start), off_of(cur)) == ws_end(bytes_of(start), off_of(start))
+// a keyword must be followed by a separator: whitespace or a comment, which the recogniser consumes as well
+pub open spec fn sep_at(bs: Seq<u8>, k: int) -> bool { ws_end(bs, k) != k || starts_comment(bs, k) }
+pub open spec fn sep_end(bs: Seq<u8>, k: int) -> int {
+    if ws_end(bs, k) != k { ws_end(bs, k) } else { cmt_next(bs, cmt_end(bs, k + 2)) }
 }
-pub open spec fn repeat_done(start: OffsetStrIter, cur: OffsetStrIter) -> bool {
-    &&& wf_osi(start) && moved(start, cur, off_of(cur))
-    &&& off_of(cur) == ws_end(bytes_of(start), off_of(start))
+pub open spec fn keyword_tok<'a>(i: OffsetStrIter<'a>, r: Result<OffsetStrIter<'a>, Token>, text: &str) -> bool {
+    let bs = bytes_of(i); let o = off_of(i); let n = lit(text).len();
+    if starts_with_at(bs, o, lit(text)) && sep_at(bs, o + n) {
+        r matches Result::Complete(rest, tok) && moved(i, rest, sep_end(bs, o + n)) && sep_end(bs, o + n) > o + n
+        && tok.typ is BAREWORD && tok.fragment@ == text@ && pos_is(tok.pos, i)
+        && (on_boundary(bs, o) ==> on_boundary(bs, sep_end(bs, o + n)))
+    } else {
+        r is Fail
+    }
 }
-pub open spec fn repeat_left(cur: OffsetStrIter) -> int { bytes_of(cur).len() - off_of(cur) }
+pub proof fn lemma_sep(bs: Seq<u8>, k: int)
+    requires 0 <= k <= bs.len()
+    ensures sep_at(bs, k) ==> k < sep_end(bs, k) <= bs.len()
+{
+    lemma_ws_end_bounds(bs, k);
+    if starts_comment(bs, k) { lemma_cmt_end_bounds(bs, k + 2); }
+}
 
-//@ extract src/tokenizer/mod.rs :: make_fn whitespace
+//@ extract src/tokenizer/mod.rs :: make_fn commatok
 //@   ret r
 //@   sig <<<
     requires wf_osi(i)
-    ensures ({
-        let bs = bytes_of(i); let o = off_of(i);
-        if ws_end(bs, o) == o {
-            // empty run: no token
-            r is Fail
-        } else {
-            // exactly the maximal run is consumed; one WS token with empty text at the true start position
-            r matches Result::Complete(rest, tok) && moved(i, rest, ws_end(bs, o))
-            && tok.typ is WS && tok.fragment@ =~= Seq::<char>::empty() && pos_is(tok.pos, i)
-        }
-    }),
-        // the run is the run of ASCII whitespace (space, \t, \n, VT, FF, \r) whenever the stepper stands on a character
-        // boundary (it always does: the source is a &str and every recogniser ends on a boundary)
-        on_boundary(bytes_of(i), off_of(i)) ==> ws_end(bytes_of(i), off_of(i)) == ws_ascii_end(bytes_of(i), off_of(i))
-            && on_boundary(bytes_of(i), ws_end(bytes_of(i), off_of(i))),
+    ensures fixed_tok(i, r, ",", TokenType::PUNCT)
+//@   >>>
+//@   body_start <<<
+    proof { reveal_strlit(","); lemma_fixed_text(bytes_of(i), off_of(i), ","@); }
+//@   >>>
+//@ end
+//@ extract src/tokenizer/mod.rs :: make_fn lbracetok
+//@   ret r
+//@   sig <<<
+    requires wf_osi(i)
+    ensures fixed_tok(i, r, "{", TokenType::PUNCT)
+//@   >>>
+//@   body_start <<<
+    proof { reveal_strlit("{"); lemma_fixed_text(bytes_of(i), off_of(i), "{"@); }
+//@   >>>
+//@ end
+//@ extract src/tokenizer/mod.rs :: make_fn rbracetok
+//@   ret r
+//@   sig <<<
+    requires wf_osi(i)
+    ensures fixed_tok(i, r, "}", TokenType::PUNCT)
+//@   >>>
+//@   body_start <<<
+    proof { reveal_strlit("}"); lemma_fixed_text(bytes_of(i), off_of(i), "}"@); }
+//@   >>>
+//@ end
+//@ extract src/tokenizer/mod.rs :: make_fn lparentok
+//@   ret r
+//@   sig <<<
+    requires wf_osi(i)
+    ensures fixed_tok(i, r, "(", TokenType::PUNCT)
+//@   >>>
+//@   body_start <<<
+    proof { reveal_strlit("("); lemma_fixed_text(bytes_of(i), off_of(i), "("@); }
+//@   >>>
+//@ end
+//@ extract src/tokenizer/mod.rs :: make_fn rparentok
+//@   ret r
+//@   sig <<<
+    requires wf_osi(i)
+    ensures fixed_tok(i, r, ")", TokenType::PUNCT)
+//@   >>>
+//@   body_start <<<
+    proof { reveal_strlit(")"); lemma_fixed_text(bytes_of(i), off_of(i), ")"@); }
+//@   >>>
+//@ end
+//@ extract src/tokenizer/mod.rs :: make_fn dotdottok
+//@   ret r
+//@   sig <<<
+    requires wf_osi(i)
+    ensures fixed_tok(i, r, "..", TokenType::PUNCT)
+//@   >>>
+//@   body_start <<<
+    proof { reveal_strlit(".."); lemma_fixed_text(bytes_of(i), off_of(i), ".."@); }
+//@   >>>
+//@ end
+//@ extract src/tokenizer/mod.rs :: make_fn dottok
+//@   ret r
+//@   sig <<<
+    requires wf_osi(i)
+    ensures fixed_tok(i, r, ".", TokenType::PUNCT)
+//@   >>>
+//@   body_start <<<
+    proof { reveal_strlit("."); lemma_fixed_text(bytes_of(i), off_of(i), "."@); }
+//@   >>>
+//@ end
+//@ extract src/tokenizer/mod.rs :: make_fn plustok
+//@   ret r
+//@   sig <<<
+    requires wf_osi(i)
+    ensures fixed_tok(i, r, "+", TokenType::PUNCT)
+//@   >>>
+//@   body_start <<<
+    proof { reveal_strlit("+"); lemma_fixed_text(bytes_of(i), off_of(i), "+"@); }
+//@   >>>
+//@ end
+//@ extract src/tokenizer/mod.rs :: make_fn dashtok
+//@   ret r
+//@   sig <<<
+    requires wf_osi(i)
+    ensures fixed_tok(i, r, "-", TokenType::PUNCT)
+//@   >>>
+//@   body_start <<<
+    proof { reveal_strlit("-"); lemma_fixed_text(bytes_of(i), off_of(i), "-"@); }
+//@   >>>
+//@ end
+//@ extract src/tokenizer/mod.rs :: make_fn startok
+//@   ret r
+//@   sig <<<
+    requires wf_osi(i)
+    ensures fixed_tok(i, r, "*", TokenType::PUNCT)
+//@   >>>
+//@   body_start <<<
+    proof { reveal_strlit("*"); lemma_fixed_text(bytes_of(i), off_of(i), "*"@); }
+//@   >>>
+//@ end
+//@ extract src/tokenizer/mod.rs :: make_fn slashtok
+//@   ret r
+//@   sig <<<
+    requires wf_osi(i)
+    ensures fixed_tok(i, r, "/", TokenType::PUNCT)
+//@   >>>
+//@   body_start <<<
+    proof { reveal_strlit("/"); lemma_fixed_text(bytes_of(i), off_of(i), "/"@); }
+//@   >>>
+//@ end
+//@ extract src/tokenizer/mod.rs :: make_fn modulustok
+//@   ret r
+//@   sig <<<
+    requires wf_osi(i)
+    ensures fixed_tok(i, r, "%%", TokenType::PUNCT)
+//@   >>>
+//@   body_start <<<
+    proof { reveal_strlit("%%"); lemma_fixed_text(bytes_of(i), off_of(i), "%%"@); }
+//@   >>>
+//@ end
+//@ extract src/tokenizer/mod.rs :: make_fn pcttok
+//@   ret r
+//@   sig <<<
+    requires wf_osi(i)
+    ensures fixed_tok(i, r, "%", TokenType::PUNCT)
+//@   >>>
+//@   body_start <<<
+    proof { reveal_strlit("%"); lemma_fixed_text(bytes_of(i), off_of(i), "%"@); }
+//@   >>>
+//@ end
+//@ extract src/tokenizer/mod.rs :: make_fn eqeqtok
+//@   ret r
+//@   sig <<<
+    requires wf_osi(i)
+    ensures fixed_tok(i, r, "==", TokenType::PUNCT)
+//@   >>>
+//@   body_start <<<
+    proof { reveal_strlit("=="); lemma_fixed_text(bytes_of(i), off_of(i), "=="@); }
+//@   >>>
+//@ end
+//@ extract src/tokenizer/mod.rs :: make_fn notequaltok
+//@   ret r
+//@   sig <<<
+    requires wf_osi(i)
+    ensures fixed_tok(i, r, "!=", TokenType::PUNCT)
+//@   >>>
+//@   body_start <<<
+    proof { reveal_strlit("!="); lemma_fixed_text(bytes_of(i), off_of(i), "!="@); }
+//@   >>>
+//@ end
+//@ extract src/tokenizer/mod.rs :: make_fn matchtok
+//@   ret r
+//@   sig <<<
+    requires wf_osi(i)
+    ensures fixed_tok(i, r, "~", TokenType::PUNCT)
+//@   >>>
+//@   body_start <<<
+    proof { reveal_strlit("~"); lemma_fixed_text(bytes_of(i), off_of(i), "~"@); }
+//@   >>>
+//@ end
+//@ extract src/tokenizer/mod.rs :: make_fn notmatchtok
+//@   ret r
+//@   sig <<<
+    requires wf_osi(i)
+    ensures fixed_tok(i, r, "!~", TokenType::PUNCT)
+//@   >>>
+//@   body_start <<<
+    proof { reveal_strlit("!~"); lemma_fixed_text(bytes_of(i), off_of(i), "!~"@); }
+//@   >>>
+//@ end
+//@ extract src/tokenizer/mod.rs :: make_fn gttok
+//@   ret r
+//@   sig <<<
+    requires wf_osi(i)
+    ensures fixed_tok(i, r, ">", TokenType::PUNCT)
+//@   >>>
+//@   body_start <<<
+    proof { reveal_strlit(">"); lemma_fixed_text(bytes_of(i), off_of(i), ">"@); }
+//@   >>>
+//@ end
+//@ extract src/tokenizer/mod.rs :: make_fn gtequaltok
+//@   ret r
+//@   sig <<<
+    requires wf_osi(i)
+    ensures fixed_tok(i, r, ">=", TokenType::PUNCT)
+//@   >>>
+//@   body_start <<<
+    proof { reveal_strlit(">="); lemma_fixed_text(bytes_of(i), off_of(i), ">="@); }
+//@   >>>
+//@ end
+//@ extract src/tokenizer/mod.rs :: make_fn ltequaltok
+//@   ret r
+//@   sig <<<
+    requires wf_osi(i)
+    ensures fixed_tok(i, r, "<=", TokenType::PUNCT)
+//@   >>>
+//@   body_start <<<
+    proof { reveal_strlit("<="); lemma_fixed_text(bytes_of(i), off_of(i), "<="@); }
+//@   >>>
+//@ end
+//@ extract src/tokenizer/mod.rs :: make_fn lttok
+//@   ret r
+//@   sig <<<
+    requires wf_osi(i)
+    ensures fixed_tok(i, r, "<", TokenType::PUNCT)
+//@   >>>
+//@   body_start <<<
+    proof { reveal_strlit("<"); lemma_fixed_text(bytes_of(i), off_of(i), "<"@); }
+//@   >>>
+//@ end
+//@ extract src/tokenizer/mod.rs :: make_fn equaltok
+//@   ret r
+//@   sig <<<
+    requires wf_osi(i)
+    ensures fixed_tok(i, r, "=", TokenType::PUNCT)
+//@   >>>
+//@   body_start <<<
+    proof { reveal_strlit("="); lemma_fixed_text(bytes_of(i), off_of(i), "="@); }
+//@   >>>
+//@ end
+//@ extract src/tokenizer/mod.rs :: make_fn semicolontok
+//@   ret r
+//@   sig <<<
+    requires wf_osi(i)
+    ensures fixed_tok(i, r, ";", TokenType::PUNCT)
+//@   >>>
+//@   body_start <<<
+    proof { reveal_strlit(";"); lemma_fixed_text(bytes_of(i), off_of(i), ";"@); }
+//@   >>>
+//@ end
+//@ extract src/tokenizer/mod.rs :: make_fn doublecolontok
+//@   ret r
+//@   sig <<<
+    requires wf_osi(i)
+    ensures fixed_tok(i, r, "::", TokenType::PUNCT)
+//@   >>>
+//@   body_start <<<
+    proof { reveal_strlit("::"); lemma_fixed_text(bytes_of(i), off_of(i), "::"@); }
+//@   >>>
+//@ end
+//@ extract src/tokenizer/mod.rs :: make_fn colontok
+//@   ret r
+//@   sig <<<
+    requires wf_osi(i)
+    ensures fixed_tok(i, r, ":", TokenType::PUNCT)
+//@   >>>
+//@   body_start <<<
+    proof { reveal_strlit(":"); lemma_fixed_text(bytes_of(i), off_of(i), ":"@); }
+//@   >>>
+//@ end
+//@ extract src/tokenizer/mod.rs :: make_fn leftsquarebracket
+//@   ret r
+//@   sig <<<
+    requires wf_osi(i)
+    ensures fixed_tok(i, r, "[", TokenType::PUNCT)
+//@   >>>
+//@   body_start <<<
+    proof { reveal_strlit("["); lemma_fixed_text(bytes_of(i), off_of(i), "["@); }
+//@   >>>
+//@ end
+//@ extract src/tokenizer/mod.rs :: make_fn rightsquarebracket
+//@   ret r
+//@   sig <<<
+    requires wf_osi(i)
+    ensures fixed_tok(i, r, "]", TokenType::PUNCT)
+//@   >>>
+//@   body_start <<<
+    proof { reveal_strlit("]"); lemma_fixed_text(bytes_of(i), off_of(i), "]"@); }
+//@   >>>
+//@ end
+//@ extract src/tokenizer/mod.rs :: make_fn fatcommatok
+//@   ret r
+//@   sig <<<
+    requires wf_osi(i)
+    ensures fixed_tok(i, r, "=>", TokenType::PUNCT)
+//@   >>>
+//@   body_start <<<
+    proof { reveal_strlit("=>"); lemma_fixed_text(bytes_of(i), off_of(i), "=>"@); }
+//@   >>>
+//@ end
+//@ extract src/tokenizer/mod.rs :: make_fn andtok
+//@   ret r
+//@   sig <<<
+    requires wf_osi(i)
+    ensures fixed_tok(i, r, "&&", TokenType::PUNCT)
+//@   >>>
+//@   body_start <<<
+    proof { reveal_strlit("&&"); lemma_fixed_text(bytes_of(i), off_of(i), "&&"@); }
+//@   >>>
+//@ end
+//@ extract src/tokenizer/mod.rs :: make_fn ortok
+//@   ret r
+//@   sig <<<
+    requires wf_osi(i)
+    ensures fixed_tok(i, r, "||", TokenType::PUNCT)
+//@   >>>
+//@   body_start <<<
+    proof { reveal_strlit("||"); lemma_fixed_text(bytes_of(i), off_of(i), "||"@); }
+//@   >>>
+//@ end
+//@ extract src/tokenizer/mod.rs :: make_fn pipetok
+//@   ret r
+//@   sig <<<
+    requires wf_osi(i)
+    ensures fixed_tok(i, r, "|", TokenType::PUNCT)
+//@   >>>
+//@   body_start <<<
+    proof { reveal_strlit("|"); lemma_fixed_text(bytes_of(i), off_of(i), "|"@); }
+//@   >>>
+//@ end
+//@ extract src/tokenizer/mod.rs :: make_fn selecttok
+//@   ret r
+//@   sig <<<
+    requires wf_osi(i)
+    ensures keyword_tok(i, r, "select")
+//@   >>>
+//@   body_start <<<
+    proof { reveal_strlit("select"); lemma_fixed_text(bytes_of(i), off_of(i), "select"@); if starts_with_at(bytes_of(i), off_of(i), lit("select")) { lemma_sep(bytes_of(i), off_of(i) + lit("select").len()); } }
+//@   >>>
+//@ end
+//@ extract src/tokenizer/mod.rs :: make_fn intok
+//@   ret r
+//@   sig <<<
+    requires wf_osi(i)
+    ensures keyword_tok(i, r, "in")
+//@   >>>
+//@   body_start <<<
+    proof { reveal_strlit("in"); lemma_fixed_text(bytes_of(i), off_of(i), "in"@); if starts_with_at(bytes_of(i), off_of(i), lit("in")) { lemma_sep(bytes_of(i), off_of(i) + lit("in").len()); } }
+//@   >>>
+//@ end
+//@ extract src/tokenizer/mod.rs :: make_fn istok
+//@   ret r
+//@   sig <<<
+    requires wf_osi(i)
+    ensures keyword_tok(i, r, "is")
+//@   >>>
+//@   body_start <<<
+    proof { reveal_strlit("is"); lemma_fixed_text(bytes_of(i), off_of(i), "is"@); if starts_with_at(bytes_of(i), off_of(i), lit("is")) { lemma_sep(bytes_of(i), off_of(i) + lit("is").len()); } }
+//@   >>>
+//@ end
+//@ extract src/tokenizer/mod.rs :: make_fn nottok
+//@   ret r
+//@   sig <<<
+    requires wf_osi(i)
+    ensures keyword_tok(i, r, "not")
+//@   >>>
+//@   body_start <<<
+    proof { reveal_strlit("not"); lemma_fixed_text(bytes_of(i), off_of(i), "not"@); if starts_with_at(bytes_of(i), off_of(i), lit("not")) { lemma_sep(bytes_of(i), off_of(i) + lit("not").len()); } }
+//@   >>>
+//@ end
+//@ extract src/tokenizer/mod.rs :: make_fn tracetok
+//@   ret r
+//@   sig <<<
+    requires wf_osi(i)
+    ensures keyword_tok(i, r, "TRACE")
+//@   >>>
+//@   body_start <<<
+    proof { reveal_strlit("TRACE"); lemma_fixed_text(bytes_of(i), off_of(i), "TRACE"@); if starts_with_at(bytes_of(i), off_of(i), lit("TRACE")) { lemma_sep(bytes_of(i), off_of(i) + lit("TRACE").len()); } }
+//@   >>>
+//@ end
+//@ extract src/tokenizer/mod.rs :: make_fn failtok
+//@   ret r
+//@   sig <<<
+    requires wf_osi(i)
+    ensures keyword_tok(i, r, "fail")
+//@   >>>
+//@   body_start <<<
+    proof { reveal_strlit("fail"); lemma_fixed_text(bytes_of(i), off_of(i), "fail"@); if starts_with_at(bytes_of(i), off_of(i), lit("fail")) { lemma_sep(bytes_of(i), off_of(i) + lit("fail").len()); } }
+//@   >>>
+//@ end
+//@ extract src/tokenizer/mod.rs :: make_fn functok
+//@   ret r
+//@   sig <<<
+    requires wf_osi(i)
+    ensures keyword_tok(i, r, "func")
+//@   >>>
+//@   body_start <<<
+    proof { reveal_strlit("func"); lemma_fixed_text(bytes_of(i), off_of(i), "func"@); if starts_with_at(bytes_of(i), off_of(i), lit("func")) { lemma_sep(bytes_of(i), off_of(i) + lit("func").len()); } }
+//@   >>>
+//@ end
+//@ extract src/tokenizer/mod.rs :: make_fn moduletok
+//@   ret r
+//@   sig <<<
+    requires wf_osi(i)
+    ensures keyword_tok(i, r, "module")
+//@   >>>
+//@   body_start <<<
+    proof { reveal_strlit("module"); lemma_fixed_text(bytes_of(i), off_of(i), "module"@); if starts_with_at(bytes_of(i), off_of(i), lit("module")) { lemma_sep(bytes_of(i), off_of(i) + lit("module").len()); } }
+//@   >>>
+//@ end
+//@ extract src/tokenizer/mod.rs :: make_fn lettok
+//@   ret r
+//@   sig <<<
+    requires wf_osi(i)
+    ensures keyword_tok(i, r, "let")
+//@   >>>
+//@   body_start <<<
+    proof { reveal_strlit("let"); lemma_fixed_text(bytes_of(i), off_of(i), "let"@); if starts_with_at(bytes_of(i), off_of(i), lit("let")) { lemma_sep(bytes_of(i), off_of(i) + lit("let").len()); } }
+//@   >>>
+//@ end
+//@ extract src/tokenizer/mod.rs :: make_fn importtok
+//@   ret r
+//@   sig <<<
+    requires wf_osi(i)
+    ensures keyword_tok(i, r, "import")
+//@   >>>
+//@   body_start <<<
+    proof { reveal_strlit("import"); lemma_fixed_text(bytes_of(i), off_of(i), "import"@); if starts_with_at(bytes_of(i), off_of(i), lit("import")) { lemma_sep(bytes_of(i), off_of(i) + lit("import").len()); } }
+//@   >>>
+//@ end
+//@ extract src/tokenizer/mod.rs :: make_fn includetok
+//@   ret r
+//@   sig <<<
+    requires wf_osi(i)
+    ensures keyword_tok(i, r, "include")
+//@   >>>
+//@   body_start <<<
+    proof { reveal_strlit("include"); lemma_fixed_text(bytes_of(i), off_of(i), "include"@); if starts_with_at(bytes_of(i), off_of(i), lit("include")) { lemma_sep(bytes_of(i), off_of(i) + lit("include").len()); } }
+//@   >>>
+//@ end
+//@ extract src/tokenizer/mod.rs :: make_fn asserttok
+//@   ret r
+//@   sig <<<
+    requires wf_osi(i)
+    ensures keyword_tok(i, r, "assert")
+//@   >>>
+//@   body_start <<<
+    proof { reveal_strlit("assert"); lemma_fixed_text(bytes_of(i), off_of(i), "assert"@); if starts_with_at(bytes_of(i), off_of(i), lit("assert")) { lemma_sep(bytes_of(i), off_of(i) + lit("assert").len()); } }
+//@   >>>
+//@ end
+//@ extract src/tokenizer/mod.rs :: make_fn outtok
+//@   ret r
+//@   sig <<<
+    requires wf_osi(i)
+    ensures keyword_tok(i, r, "out")
+//@   >>>
+//@   body_start <<<
+    proof { reveal_strlit("out"); lemma_fixed_text(bytes_of(i), off_of(i), "out"@); if starts_with_at(bytes_of(i), off_of(i), lit("out")) { lemma_sep(bytes_of(i), off_of(i) + lit("out").len()); } }
+//@   >>>
+//@ end
+//@ extract src/tokenizer/mod.rs :: make_fn constrainttok
+//@   ret r
+//@   sig <<<
+    requires wf_osi(i)
+    ensures keyword_tok(i, r, "constraint")
+//@   >>>
+//@   body_start <<<
+    proof { reveal_strlit("constraint"); lemma_fixed_text(bytes_of(i), off_of(i), "constraint"@); if starts_with_at(bytes_of(i), off_of(i), lit("constraint")) { lemma_sep(bytes_of(i), off_of(i) + lit("constraint").len()); } }
+//@   >>>
+//@ end
+//@ extract src/tokenizer/mod.rs :: make_fn converttok
+//@   ret r
+//@   sig <<<
+    requires wf_osi(i)
+    ensures keyword_tok(i, r, "convert")
+//@   >>>
+//@   body_start <<<
+    proof { reveal_strlit("convert"); lemma_fixed_text(bytes_of(i), off_of(i), "convert"@); if starts_with_at(bytes_of(i), off_of(i), lit("convert")) { lemma_sep(bytes_of(i), off_of(i) + lit("convert").len()); } }
+//@   >>>
+//@ end
+//@ extract src/tokenizer/mod.rs :: make_fn astok
+//@   ret r
+//@   sig <<<
+    requires wf_osi(i)
+    ensures keyword_tok(i, r, "as")
+//@   >>>
+//@   body_start <<<
+    proof { reveal_strlit("as"); lemma_fixed_text(bytes_of(i), off_of(i), "as"@); if starts_with_at(bytes_of(i), off_of(i), lit("as")) { lemma_sep(bytes_of(i), off_of(i) + lit("as").len()); } }
+//@   >>>
+//@ end
+//@ extract src/tokenizer/mod.rs :: make_fn maptok
+//@   ret r
+//@   sig <<<
+    requires wf_osi(i)
+    ensures keyword_tok(i, r, "map")
+//@   >>>
+//@   body_start <<<
+    proof { reveal_strlit("map"); lemma_fixed_text(bytes_of(i), off_of(i), "map"@); if starts_with_at(bytes_of(i), off_of(i), lit("map")) { lemma_sep(bytes_of(i), off_of(i) + lit("map").len()); } }
+//@   >>>
+//@ end
+//@ extract src/tokenizer/mod.rs :: make_fn filtertok
+//@   ret r
+//@   sig <<<
+    requires wf_osi(i)
+    ensures keyword_tok(i, r, "filter")
+//@   >>>
+//@   body_start <<<
+    proof { reveal_strlit("filter"); lemma_fixed_text(bytes_of(i), off_of(i), "filter"@); if starts_with_at(bytes_of(i), off_of(i), lit("filter")) { lemma_sep(bytes_of(i), off_of(i) + lit("filter").len()); } }
+//@   >>>
+//@ end
+//@ extract src/tokenizer/mod.rs :: make_fn reducetok
+//@   ret r
+//@   sig <<<
+    requires wf_osi(i)
+    ensures keyword_tok(i, r, "reduce")
+//@   >>>
+//@   body_start <<<
+    proof { reveal_strlit("reduce"); lemma_fixed_text(bytes_of(i), off_of(i), "reduce"@); if starts_with_at(bytes_of(i), off_of(i), lit("reduce")) { lemma_sep(bytes_of(i), off_of(i) + lit("reduce").len()); } }
+//@   >>>
+//@ end
+
+// =====================================================================================================
+// runs of a byte class: numbers and barewords (consume_all!)
+// =====================================================================================================
+pub enum ByteClass { Symbol, Digit }
+// reference/grammar.md: "bareword: ASCII_CHAR, { DIGIT | VISIBLE_CHAR | "_" }"; the tokenizer's symbol characters are the
+// ASCII letters, the digits, '-' and '_'
+pub open spec fn sym_byte(b: u8) -> bool { alpha_byte(b) || digit_byte(b) || b == 0x2D || b == 0x5F }
+pub open spec fn in_class(c: ByteClass, b: u8) -> bool {
+    match c { ByteClass::Symbol => sym_byte(b), ByteClass::Digit => digit_byte(b) }
+}
+// consume_all!(rule) names the class of its rule as `rule::class()`: modules named like the two rules (type namespace)
+pub mod is_symbol_char { use super::*; pub open spec fn class() -> ByteClass { ByteClass::Symbol } }
+pub mod ascii_digit { use super::*; pub open spec fn class() -> ByteClass { ByteClass::Digit } }
+
+// end of the maximal run of bytes of class c that starts at k
+pub open spec fn run_end(bs: Seq<u8>, k: int, c: ByteClass) -> int
+    decreases bs.len() - k
+{
+    if 0 <= k < bs.len() && in_class(c, bs[k]) { run_end(bs, k + 1, c) } else { k }
+}
+pub proof fn lemma_run_end_bounds(bs: Seq<u8>, k: int, c: ByteClass)
+    requires 0 <= k <= bs.len()
+    ensures k <= run_end(bs, k, c) <= bs.len()
+    decreases bs.len() - k
+{
+    if k < bs.len() { lemma_run_end_bounds(bs, k + 1, c); }
+}
+pub open spec fn sym_at(bs: Seq<u8>, k: int) -> bool { 0 <= k < bs.len() && sym_byte(bs[k]) }
+
+// clauses of the loop of consume_all!(start, rule)
+pub open spec fn consume_inv(start: OffsetStrIter, cur: OffsetStrIter, c: ByteClass) -> bool {
+    &&& wf_osi(start) && on_boundary(bytes_of(start), off_of(start))
+    &&& moved(start, cur, off_of(cur)) && off_of(start) <= off_of(cur) <= bytes_of(start).len()
+    &&& on_boundary(bytes_of(start), off_of(cur))
+    &&& run_end(bytes_of(start), off_of(cur), c) == run_end(bytes_of(start), off_of(start), c)
+}
+pub open spec fn consume_post<'a>(start: OffsetStrIter<'a>, r: Result<OffsetStrIter<'a>, &'a str>, c: ByteClass) -> bool {
+    let bs = bytes_of(start); let o = off_of(start); let e = run_end(bs, o, c);
+    r matches Result::Complete(rest, sp) && (moved(start, rest, e) && encode_utf8(sp@) == bs.subrange(o, e) && on_boundary(bs, e))
+}
+// the rule accepted the byte at `cur`: it is ASCII, so the next offset is a boundary again, in the same run
+pub proof fn lemma_consume_step(start: OffsetStrIter, cur: OffsetStrIter, c: ByteClass)
+    requires consume_inv(start, cur, c), off_of(cur) < bytes_of(start).len(), in_class(c, bytes_of(start)[off_of(cur)])
+    ensures on_boundary(bytes_of(start), off_of(cur) + 1),
+        run_end(bytes_of(start), off_of(cur) + 1, c) == run_end(bytes_of(start), off_of(start), c)
+{
+    lemma_boundary_step(bytes_of(start), off_of(cur));
+}
+pub proof fn lemma_consume_span(start: OffsetStrIter, cur: OffsetStrIter, c: ByteClass)
+    requires consume_inv(start, cur, c)
+    ensures span_ok(bytes_of(start), off_of(start), off_of(cur))
+{
+    lemma_boundary_is_char_boundary(start.contained.source, off_of(start));
+    lemma_boundary_is_char_boundary(start.contained.source, off_of(cur));
+}
+
+//@ extract src/tokenizer/mod.rs :: fn is_symbol_char
+//@   ret r
+//@   sig <<<
+    requires wf_osi(i)
+    ensures one_byte(i, r, sym_byte(cur_byte(i)))
+//@   >>>
+//@   mutant sym_no_dash "c == b'-' ||" => "" expect is_symbol_char
+//@ end
+
+// a token whose text is the maximal run of class c starting at the cursor
+pub open spec fn run_tok<'a>(i: OffsetStrIter<'a>, r: Result<OffsetStrIter<'a>, Token>, first_ok: bool, c: ByteClass, typ: TokenType) -> bool {
+    let bs = bytes_of(i); let o = off_of(i); let e = run_end(bs, o, c);
+    if o < bs.len() && first_ok {
+        r matches Result::Complete(rest, tok) && moved(i, rest, e) && e > o
+        && tok.typ == typ && encode_utf8(tok.fragment@) == bs.subrange(o, e) && pos_is(tok.pos, i)
+        && on_boundary(bs, e)
+    } else {
+        r is Fail
+    }
+}
+
+// BAREWORD: a letter followed by symbol characters, as many as there are
+//@ extract src/tokenizer/mod.rs :: make_fn barewordtok
+//@   subst "fn barewordtok(i: OffsetStrIter) -> Result<OffsetStrIter, Token>" => "fn barewordtok<'a>(i: OffsetStrIter<'a>) -> Result<OffsetStrIter<'a>, Token>"
+//@   ret r
+//@   sig <<<
+    requires wf_osi(i)
+    ensures run_tok(i, r, alpha_byte(cur_byte(i)), ByteClass::Symbol, TokenType::BAREWORD)
 //@   >>>
 //@   body_start <<<
     proof {
-        reveal_strlit("");
-        lemma_ws_end_bounds(bytes_of(i), off_of(i));
-        if off_of(i) < bytes_of(i).len() { lemma_ws_end_bounds(bytes_of(i), off_of(i) + 1); }
-        if on_boundary(bytes_of(i), off_of(i)) { lemma_ws_run_is_ascii(bytes_of(i), off_of(i)); }
+        let bs = bytes_of(i); let o = off_of(i);
+        if o < bs.len() && alpha_byte(bs[o]) { lemma_ascii_on_boundary(i.contained.source, o); lemma_run_end_bounds(bs, o + 1, ByteClass::Symbol); }
     }
 //@   >>>
-//@   mutant ws_empty_run "_ => peek!(ascii_ws)," => "" expect whitespace
-//@   mutant ws_single_byte "_ => repeat!(ascii_ws)," => "_ => ascii_ws," expect whitespace
-//@   mutant ws_pos_at_end "span => input!(), _ => peek!(ascii_ws), _ => repeat!(ascii_ws)," => "_ => peek!(ascii_ws), _ => repeat!(ascii_ws), span => input!()," expect whitespace
+//@   mutant bareword_digit_start "peek!(ascii_alpha)" => "peek!(ascii_digit)" expect barewordtok
 //@ end
+// DIGIT: the maximal run of digits
+//@ extract src/tokenizer/mod.rs :: make_fn digittok
+//@   subst "fn digittok(i: OffsetStrIter) -> Result<OffsetStrIter, Token>" => "fn digittok<'a>(i: OffsetStrIter<'a>) -> Result<OffsetStrIter<'a>, Token>"
+//@   ret r
+//@   sig <<<
+    requires wf_osi(i)
+    ensures run_tok(i, r, digit_byte(cur_byte(i)), ByteClass::Digit, TokenType::DIGIT)
+//@   >>>
+//@   body_start <<<
+    proof {
+        let bs = bytes_of(i); let o = off_of(i);
+        if o < bs.len() && digit_byte(bs[o]) { lemma_ascii_on_boundary(i.contained.source, o); lemma_run_end_bounds(bs, o + 1, ByteClass::Digit); }
+    }
+//@   >>>
+//@   mutant digits_as_symbols "consume_all!(ascii_digit)" => "consume_all!(is_symbol_char)" expect digittok
+//@ end
+
+// =====================================================================================================
+// whole-word literals: NULL, true, false
+// =====================================================================================================
+pub open spec fn word_tok<'a>(i: OffsetStrIter<'a>, r: Result<OffsetStrIter<'a>, Token>, text: &str, typ: TokenType) -> bool {
+    let bs = bytes_of(i); let o = off_of(i); let n = lit(text).len();
+    starts_with_at(bs, o, lit(text)) && !sym_at(bs, o + n)
+    && (r matches Result::Complete(rest, tok) && moved(i, rest, o + n)
+        && tok.typ == typ && tok.fragment@ == text@ && pos_is(tok.pos, i)
+        && (on_boundary(bs, o) ==> on_boundary(bs, o + n)))
+}
+pub proof fn lemma_true_false_lits()
+    ensures lit("true").len() == 4, lit("true")[0] == 0x74, lit("false").len() == 5, lit("false")[0] == 0x66,
+{
+    reveal_strlit("true"); lemma_ascii_text("true"@);
+    reveal_strlit("false"); lemma_ascii_text("false"@);
+}
+pub proof fn lemma_bool_lits(bs: Seq<u8>, o: int)
+    ensures
+        lit("true").len() == 4, lit("false").len() == 5,
+        !(starts_with_at(bs, o, lit("true")) && starts_with_at(bs, o, lit("false"))),
+        (on_boundary(bs, o) && starts_with_at(bs, o, lit("true"))) ==> on_boundary(bs, o + 4),
+        (on_boundary(bs, o) && starts_with_at(bs, o, lit("false"))) ==> on_boundary(bs, o + 5),
+{
+    lemma_true_false_lits();
+    reveal_strlit("true"); lemma_fixed_text(bs, o, "true"@);
+    reveal_strlit("false"); lemma_fixed_text(bs, o, "false"@);
+    if starts_with_at(bs, o, lit("true")) { lemma_starts_first(bs, o, lit("true")); }
+    if starts_with_at(bs, o, lit("false")) { lemma_starts_first(bs, o, lit("false")); }
+}
+//@ extract src/tokenizer/mod.rs :: make_fn emptytok
+//@   ret r
+//@   sig <<<
+    requires wf_osi(i)
+    ensures word_tok(i, r, "NULL", TokenType::EMPTY) || r is Fail,
+        r is Fail == !(starts_with_at(bytes_of(i), off_of(i), lit("NULL")) && !sym_at(bytes_of(i), off_of(i) + 4)),
+//@   >>>
+//@   body_start <<<
+    proof { reveal_strlit("NULL"); lemma_fixed_text(bytes_of(i), off_of(i), "NULL"@); }
+//@   >>>
+//@   mutant null_prefix_of_word "_ => not!(is_symbol_char)," => "" expect emptytok
+//@ end
+//@ extract src/tokenizer/mod.rs :: make_fn booleantok
+//@   ret r
+//@   sig <<<
+    requires wf_osi(i)
+    ensures word_tok(i, r, "true", TokenType::BOOLEAN) || word_tok(i, r, "false", TokenType::BOOLEAN) || r is Fail,
+        r is Fail == !((starts_with_at(bytes_of(i), off_of(i), lit("true")) && !sym_at(bytes_of(i), off_of(i) + 4))
+                    || (starts_with_at(bytes_of(i), off_of(i), lit("false")) && !sym_at(bytes_of(i), off_of(i) + 5))),
+//@   >>>
+//@   body_start <<<
+    proof {
+        lemma_bool_lits(bytes_of(i), off_of(i));
+    }
+//@   >>>
+//@ end
+
+// =====================================================================================================
+// end of input, strings
+// =====================================================================================================
+//@ extract src/tokenizer/mod.rs :: make_fn end_of_input
+//@   ret r
+//@   sig <<<
+    requires wf_osi(i)
+    ensures
+        off_of(i) >= bytes_of(i).len() ==> (r matches Result::Complete(rest, tok) && rest == i
+            && tok.typ is END && tok.fragment@ =~= Seq::<char>::empty() && pos_is(tok.pos, i)),
+        off_of(i) < bytes_of(i).len() ==> r is Fail,
+//@   >>>
+//@   body_start <<<
+    proof { reveal_strlit(""); }
+//@   >>>
+//@ end
+
+// The string body scanner: its VALUE contract (escapes decoded, every other byte preserved) is units/lit_roundtrip.
+// Here only its shape, which `token`/`tokenize` need: it stops right after an unescaped closing quote.
+//@ extract src/tokenizer/mod.rs :: fn escapequoted
+//@   subst "while let Some(&c) = _input.next() {" => "while let Some(c__r) = _input.next() { let c = *c__r;"
+//@   ret r
+//@   sig <<<
+    requires wf_osi(input)
+    ensures
+        r matches Result::Complete(rest, frag) ==> moved(input, rest, off_of(rest)) && off_of(input) < off_of(rest) <= bytes_of(input).len()
+            && bytes_of(input)[off_of(rest) - 1] == 0x22,
+        r matches Result::Incomplete(rest) ==> moved(input, rest, bytes_of(input).len() as int),
+        !(r is Abort),
+//@   >>>
+//@   loop 1 <<<
+        invariant
+            wf_osi(_input), same_frame(_input, input),
+            off_of(input) <= off_of(_input) <= bytes_of(input).len(),
+        ensures
+            wf_osi(_input), same_frame(_input, input), off_of(_input) == bytes_of(input).len(),
+        decreases bytes_of(input).len() - off_of(_input)
+//@   >>>
+//@ end
+
+pub open spec fn str_tok<'a>(i: OffsetStrIter<'a>, r: Result<OffsetStrIter<'a>, Token>) -> bool {
+    let bs = bytes_of(i); let o = off_of(i);
+    &&& !(0 <= o < bs.len() && bs[o] == 0x22) ==> r is Fail
+    &&& r matches Result::Complete(rest, tok) ==> moved(i, rest, off_of(rest)) && o + 2 <= off_of(rest)
+            && tok.typ is QUOTED && pos_is(tok.pos, i) && on_boundary(bs, off_of(rest))
+    &&& !(r is Abort)
+}
+//@ extract src/tokenizer/mod.rs :: make_fn strtok
+//@   ret r
+//@   sig <<<
+    requires wf_osi(i)
+    ensures str_tok(i, r)
+//@   >>>
+//@   body_start <<<
+    proof {
+        lemma_lits(); lemma_starts_1(bytes_of(i), off_of(i), 0x22);
+        // the closing quote is ASCII: what follows it starts a character
+        assert forall|k: int| 0 < k <= bytes_of(i).len() && bytes_of(i)[k - 1] == 0x22 implies on_boundary(bytes_of(i), k) by {
+            lemma_ascii_on_boundary(i.contained.source, k - 1);
+            lemma_boundary_step(bytes_of(i), k - 1);
+        }
+    }
+//@   >>>
+//@ end
+
 
 } // verus!
 
